@@ -12,2030 +12,1996 @@ Definition show_fres (r : fres) : string :=
   end.
 Definition check (rs : list rune) : string := digest (show_fres (format_res rs)).
 Definition full (rs : list rune) : string := show_fres (format_res rs).
-Eval vm_compute in ("<<<M4567>>>" ++ check (runes_of_ascii "/// triple
+Eval vm_compute in ("<<<M439>>>" ++ check (runes_of_ascii "/// triple
 packet
-
-options1  { 
-@leftPad
-( '\x00'
-    )
-
-    @rightPad  ( ) @rightPad
-
-(	'0')
-repeat BodyLength {a1 
-falsey `u8 x,` //x
-
-, }	,  float32 calculatedFrom,match
-trueish as 
-len{
-
-""a	b""
-:	//x
-Packet
+string_{
+char[] calculatedFrom
+    ,string	rootA	`two words` ,  @tag(
+    10 // " ++ [128512]%N ++ runes_of_ascii " emoji
+)@lengthOf( packetx ) char[] falsey
+    ,// @lengthOf(
+int8 MetaDataX @calculatedFrom(""CRC32"" )
+    `two words`
+, zchar[
     7
-
-    :
-options1
+]float
+    ,  uint32 calculatedFrom,
+    matchKey {
+zchar[ 10 ]u
+@calculatedFrom( ""a\\""
+// `tick` ""quote"" 'q'
+// " ++ [27880; 37322]%N ++ runes_of_ascii "
+)
 ,
-    7
-	    // trailing space 
-//x
-    :
-_x
-
-, [
-
-    ""`tick`""
+// " ++ [27880; 37322]%N ++ runes_of_ascii "
+// packet A { u8 x, }
+} , @calculatedFrom( ""1"" )int16 rootA , float64 uint8x
+    // " ++ [27880; 37322]%N ++ runes_of_ascii "
     ,
-	3
-
-    ,
-""" ++ [128512]%N ++ runes_of_ascii """
-	,  
-      // packet A { u8 x, }
+    // " ++ [128512]%N ++ runes_of_ascii " emoji
+    } packet u8x{@calculatedFrom( ""CRC32"" ) repeat //x
+u64 u8x // packet A { u8 x, }
+`a\` , } // trailing space 
+packet
+    Packet	{ @calculatedFrom(
+""packet""
+) repeat
+len i64_
+,
+@lengthOf(trueish
+)
+@lengthOf(u )
+    // a // b
+    @lengthOf( A
+) char[] zchar`say ""hi""`
+// " ++ [128512]%N ++ runes_of_ascii " emoji
+//
+,
+    @calculatedFrom(""{,}"" )	chars@calculatedFrom( ""{,}""	)
+    ,repeat
+//	t
 // @lengthOf(
-  1
-
-    ,
-	""" ++ [28040; 24687]%N ++ runes_of_ascii """	, 0123456789
-
-,
-""{,}""
-
-    ,
-
-""1""
-    ] : pack 
-, 
-""CRC32""
-:
-
-    i8i8
-
-,
-""// no comment""	: trueish } ,
-metadata
-
-    rootA
-
-`" ++ [28040; 24687; 31867; 22411]%N ++ runes_of_ascii "` 
-,i32
-
-x_y_z	`two words`	,repeat  i32
-    x_y_z
-`" ++ [28040; 24687; 31867; 22411]%N ++ runes_of_ascii "`
-
-,  @leftPad
-    (
-
-'0'
-)
-
-@leftPad(
-
-'0')
-
-    x@calculatedFrom(
-	    /// triple
-	// trailing space 
-""\n""	)
-`{ , }`
-,
-	@tag(1
-)
-    //
-  repeat
-u32 asx  ,  u8x	@lengthOf( packetx	)
-
-`two words`	, }
-
-packet int
-    {
-zchar[ 
-	// `tick` ""quote"" 'q'
-	// c
-  65535 ]
-	leftPad
-,
-@lengthOf(  /// triple
-
-  repeatCount)	@tag(
-
-0123456789 )match lengthOf
-as // a // b
-    calculatedFrom  {[ 
-""a\\"" ]
-
+pack lengthOf , // `tick` ""quote"" 'q'
+}
+//x
+// " ++ [27880; 37322]%N ++ runes_of_ascii "
+packet
+i64_{ calculatedFrom
+{ stringy {
+zchar[
+    // c
+    1  ] tag , match
+    float as _x  { ""it's"" : Packet ,
+[	0123456789 ,// c
+4294967296
+,""1"", 00, 42 ] :Foo , [""a\\""  , 42 //x
+, 255 ,""`tick`"" , 3 , """ ++ [128512]%N ++ runes_of_ascii """ ] :pack , // @lengthOf(
+4294967296
     :
-    trueish
-    ,""x y""  :A	,
+    pack,
+[ 0123456789 , """ ++ [28040; 24687]%N ++ runes_of_ascii """ ,
+""{,}"",
+/// triple
+// " ++ [27880; 37322]%N ++ runes_of_ascii "
+4294967296 ,""packet"", ""x y"" , // packet A { u8 x, }
+""x y""	]//	t
+: uint8x  ,
+    } , } ,
+} //
+,@tag(00)
+BodyLength ,@calculatedFrom(""a	b"" )match msg_type
+as Foo { [ ""\n""
+, 42,
+42 ]
+: Pad , } , u64
+packetx `" ++ [233]%N ++ runes_of_ascii "`
+// packet A { u8 x, }
+//x
+,repeat
+i64 tag
+,
+//x
+// @lengthOf(
+@tag( 65535 // `tick` ""quote"" 'q'
+)
+    @lengthOf(
+    // `tick` ""quote"" 'q'
+    Pad
+    ) match matchKey as f32a
+{3 :  BodyLength ,[//	t
+""" ++ [128512]%N ++ runes_of_ascii """ , ""packet""  ,
+    65535 ,255 , ""a	b""
+, 0 , //	t
+007 //	t
+] : /// triple
+u8x ,4294967296
+//x
+// a // b
+: As 007 :i64_
+    ""it's"":lengthOf, ""\" ++ [233]%N ++ runes_of_ascii """ :	u8x , },  rootA
+    // c
+    { f32 Packet@lengthOf(A ), i32 repeatCount
+@calculatedFrom( ""x y""	)
+//x
+// c
+, repeatCount
+    @calculatedFrom(
+""" ++ [233]%N ++ runes_of_ascii "t" ++ [233]%N ++ runes_of_ascii """) // trailing space 
+`" ++ [28040; 24687; 31867; 22411]%N ++ runes_of_ascii "`,
+    char[] Packet, }, @lengthOf( body
+)
+@tag(65535 )	@calculatedFrom(""\" ++ [233]%N ++ runes_of_ascii """ )metadata @lengthOf( uint8x
+    ) ,
+    }packet i64_ { match o as
+    asx { ""`tick`""
+    : charz
+    }
+//	t
+// trailing space 
+,
+    }
+")).
+Eval vm_compute in ("<<<M3791>>>" ++ check (runes_of_ascii "packet metadata {
+    zchar[10] i64_ `say ""hi""`,
+    repeat Header uint8x,
+    @lengthOf(falsey)
+    int8 _x @calculatedFrom(""x y"") `{ , }`,
+    stringy metadata `a\`,// " ++ [128512]%N ++ runes_of_ascii " emoji
+    @lengthOf(Packet)
+    i64_ {
+        match crc as Header {
+            [0, 0123456789] : Foo,
+            ""abc"" : pack,
+        },
+        match int as charz {
+            1 : packetx,
+            7 : MetaDataX,
+            // " ++ [128512]%N ++ runes_of_ascii " emoji
+            7 : a1,
+            007 : zchar,
+            ""CRC32"" : stringy,
+            [""\" ++ [233]%N ++ runes_of_ascii """, ""CRC32""] : i8i8,
+        },
+        pack `doc`,
+        tag {
+            _x @calculatedFrom(""CRC32"") `
+            `,
+            repeat asx `{ , }`,
+            i32 _x @calculatedFrom(""\n"") `u8 x,`,
+        },
+    },
+    f32a @lengthOf(chars),
+    string Packet,
+    @leftPad(' ')
+    @lengthOf(u8x)
+    // trailing space 
+    a1 @calculatedFrom(""x y"") `doc`,
+    options1,
+    body `{ , }`,
+}
 
-""" ++ [233]%N ++ runes_of_ascii "t" ++ [233]%N ++ runes_of_ascii """:
-	options1,
+MetaData Foo {
+    uint8 Z9_ `{ , }`,
+}
+
+packet Header {
+    pack {
+        // trailing space 
+        leftPad {
+            u128 i64_,
+            zchar[7] i64_ @calculatedFrom(""packet"") `line1
+            line2`,//
+            metadata Logon,
+            char[10] asx @lengthOf(uint8x) `it's`,
+        },
+    },
+    @calculatedFrom(""a\\"")
+    Logon @lengthOf(uint8x) `
+    `,
+    int64 msg_type,
+    metadata _x,
+    @leftPad()
+    trueish {
+        Header {
+            //x
+            // `tick` ""quote"" 'q'
+            uint8x {
+                char[0123456789] leftPad @calculatedFrom(""" ++ [233]%N ++ runes_of_ascii "t" ++ [233]%N ++ runes_of_ascii """) `" ++ [28040; 24687; 31867; 22411]%N ++ runes_of_ascii "`,
+            },// " ++ [128512]%N ++ runes_of_ascii " emoji
+            char[1] asx @calculatedFrom(""it's""),
+            roots,
+        },
+    },
+    zchar[255] Packet,// `tick` ""quote"" 'q'
+    repeat i8i8,
+    repeat float64 u8x,
+    @calculatedFrom(""" ++ [233]%N ++ runes_of_ascii "t" ++ [233]%N ++ runes_of_ascii """)
+    asx @calculatedFrom(""a\""b""),
+}
+
+MetaData roots {
+}")).
+Eval vm_compute in ("<<<M4344>>>" ++ check (runes_of_ascii "options {
+}
+
+packet packetx {
+    crc charz ``,
+    leftPad,
+    @tag(3)
+    repeat uint64 u128 `doc`,
+    @tag(007)
+    // c
+    // `tick` ""quote"" 'q'
+    Pad roots,
+    @calculatedFrom(""CRC32"")
+    u8x metadata,
+    @tag(1)
+    zchar[0123456789] i8i8 `a\`,
+    match a1 as As {
+        ""a	b"" : roots,
+        [""\" ++ [233]%N ++ runes_of_ascii """, ""abc""] : string_,
+    },
+    repeat Header {
+        match f32a as _x {
+            4294967296 : repeatCount,
+            7 : u8x,
+            7 : As,
+        },
+        i64 repeatCount @lengthOf(a1),
+    },
+    // " ++ [128512]%N ++ runes_of_ascii " emoji
+    // " ++ [27880; 37322]%N ++ runes_of_ascii "
+}
+
+packet pack {
+    zchar[0] stringy,
+}/// triple
+
+root packet As {
+    // @lengthOf(
+    match u8x as packetx {
+        7 : uint8x,
+        65535 : int,
+        1 : T,
+        ""{,}"" : Foo,
+        0123456789 : Logon,
+        [65535] : len,
+    },
+    repeat lengthOf metadata,
+    @calculatedFrom(""" ++ [233]%N ++ runes_of_ascii "t" ++ [233]%N ++ runes_of_ascii """)
+    repeat zchar[65535] As `doc`,
+    char[7] float @calculatedFrom(""""),
+    float32 a1 `it's`,
+    @tag(3)
+    char[] BodyLength `line1
+        line2`,
+    match int as asx {
+        [""" ++ [28040; 24687]%N ++ runes_of_ascii """, 0] : x_y_z,
+        1 : Packet,
+        ""{,}"" : falsey,
+        255 : charz,
+        [""{,}"", 0123456789] : uint8x,
+    },
+    crc @calculatedFrom(""\" ++ [233]%N ++ runes_of_ascii """) `crlf
+        line`,
+    match packetx as Pad {
+        ""packet"" : BodyLength,
+    },
+    @lengthOf(BodyLength)
+    @tag(00)
+    @lengthOf(As)
+    match charz as len {
+        [""x y""] : _x,
+        //x
+        ""it's"" : i64_,
+        0123456789 : metadata,
+        // packet A { u8 x, }
+        //x
+        """ ++ [128512]%N ++ runes_of_ascii """ : trueish,
+        1 : Logon,
+    },
+}//	t")).
+Eval vm_compute in ("<<<M345>>>" ++ check (runes_of_ascii "// `tick` ""quote"" 'q'
+root	packet /// triple
+As { }packet x_y_z{@rightPad (
+) @tag( 42 )
+    @rightPad (' ' ) repeat f32a charz ,match Header as// a // b
+stringy { [ 1	,	4294967296 ]// packet A { u8 x, }
+: rootA ,
+0123456789 : x_y_z
+    , [
+    65535
+, 255]	:
+/// triple
+// a // b
+metadata ,
+[	7 , """ ++ [233]%N ++ runes_of_ascii "t" ++ [233]%N ++ runes_of_ascii """, ""{,}"" ,""{,}"" ] : T
+// trailing space 
+// " ++ [27880; 37322]%N ++ runes_of_ascii "
+,""packet"" :
+    chars , // trailing space 
+[ 42
+    , //
+00] : Logon,} ,repeat i8i8 {
+tag @calculatedFrom(// " ++ [27880; 37322]%N ++ runes_of_ascii "
+""" ++ [128512]%N ++ runes_of_ascii """ )`{ , }` , }
+,Z9_ @lengthOf(
+    Packet
+    // @lengthOf(
+    ) ,
+    // trailing space 
+    lengthOf
+    ,
+trueish {
+zchar[ 007/// triple
+]
+    packetx, zchar[ 0123456789
+] MetaDataX `// not a comment`
+, rootA @lengthOf(Z9_)
+    `" ++ [233]%N ++ runes_of_ascii "`, }
+,	} root// a // b
+packet u8x { float64 len@calculatedFrom( ""packet"" )
+//
+// " ++ [27880; 37322]%N ++ runes_of_ascii "
+, u8 calculatedFrom , @calculatedFrom( ""a\""b""
+) @calculatedFrom( ""\n"") // trailing space 
+@lengthOf(
+    Foo ) Logon @lengthOf(	i8i8) , // trailing space 
+@calculatedFrom(
+""a\\"") falsey@calculatedFrom(
+""" ++ [233]%N ++ runes_of_ascii "t" ++ [233]%N ++ runes_of_ascii """)`line1
+line2` ,@leftPad('\x00' )
+    // c
+    match
+i64_	as
+    // c
+    i64_{ [
+    0123456789 ] :  a1
+,[ ""1"" ,
+3 , //
+3 , 7 , 0
+] :string_ ,
+    """"// `tick` ""quote"" 'q'
+:
+    i64_ , }, @lengthOf( As )
+    // packet A { u8 x, }
+    T{zchar[ 0] roots
+@lengthOf(
+options1 )
+    , /// triple
+u16 pack
+    ,//
+} ,/// triple
+string// `tick` ""quote"" 'q'
+x	`crlf
+line`
+, }")).
+Eval vm_compute in ("<<<M741>>>" ++ check (runes_of_ascii "packet float { @calculatedFrom(
+// @lengthOf(
+// a // b
+""abc"" ) u64 roots
+, repeat u {repeat A `a\` , As @lengthOf( len ) , uint16 falsey ,
+    leftPad @lengthOf(
+//x
+// c
+crc)
+    ,
+    } , zchar[007 ]
+    int
+`a\`
+    ,
+@calculatedFrom( ""x y"")
+char[] Logon `
+`// `tick` ""quote"" 'q'
+, @rightPad ( ' ' // a // b
+)@lengthOf(
+tag) @tag( 0123456789 ) match
+    rootA as Z9_{ 65535 :
+    chars ""1"" : Pad // packet A { u8 x, }
+, }, @tag(	65535 ) tag
+    // " ++ [27880; 37322]%N ++ runes_of_ascii "
+    { char[
+//
+// " ++ [27880; 37322]%N ++ runes_of_ascii "
+255]// @lengthOf(
+charz@lengthOf( len
+)`a\` ,uint16 i64_
+@lengthOf(string_
+//x
+//
+) , }
+    ,
+// c
+/// triple
+o o `// not a comment` , @calculatedFrom(
+""1"" ) repeat T `" ++ [28040; 24687; 31867; 22411]%N ++ runes_of_ascii "`	, } root packet crc
+{ repeat
+zchar[ 4294967296
+    ] u8x, match MetaDataX as
+string_
+{
+[""`tick`"" ,	""packet""	, 10
+, ""packet"",	""// no comment"" , """ ++ [233]%N ++ runes_of_ascii "t" ++ [233]%N ++ runes_of_ascii """ ,
+65535] : stringy
+// packet A { u8 x, }
+//
+,
+[
+    3 ] :	stringy, [""" ++ [28040; 24687]%N ++ runes_of_ascii """ , 3 ] : asx	, // " ++ [128512]%N ++ runes_of_ascii " emoji
+[ 7, // @lengthOf(
+00, // @lengthOf(
+""" ++ [28040; 24687]%N ++ runes_of_ascii """ , ""a	b"" , 0, 4294967296// @lengthOf(
+,255
+,  007 ] :As//
+,
+""1"" : x_y_z
+// `tick` ""quote"" 'q'
+// @lengthOf(
+, } , } MetaData
+    falsey { } packet o // c
+{ @lengthOf(	Packet/// triple
+)
+@lengthOf( Z9_ ) @leftPad (
+'\x00' ) repeat
+Pad// packet A { u8 x, }
+matchKey
+,}
+MetaData
+stringy {}
+")).
+Eval vm_compute in ("<<<M3920>>>" ++ check (runes_of_ascii "packet leftPad {
+    // packet A { u8 x, }
+    @leftPad(' ')
+    repeat x `" ++ [233]%N ++ runes_of_ascii "`,
+    repeat pack,
+    // a // b
+    // a // b
+    uint32 A,// @lengthOf(
+    @tag(10)
+    @leftPad()
+    @calculatedFrom(""a	b"")
+    u32 stringy @lengthOf(lengthOf),
+    Foo `line1
+    line2`,
+    crc `u8 x,`,// @lengthOf(
+}
+
+options {
+    //
+    x = float64;
+    u8x = """ ++ [128512]%N ++ runes_of_ascii """;
+    pack = ' ';
+    // c
+    falsey = ""a\""b""
+}
+
+packet As {
+    repeat repeatCount u8x `doc`,
+    @leftPad('0')
+    @calculatedFrom(""\" ++ [233]%N ++ runes_of_ascii """)
+    match asx as crc {
+        4294967296 : u8x,
+        ""\n"" : u128,
+        0 : asx,
+        [255, ""x y""] : Logon,
+        0123456789 : A,
+        255 : i64_,
+    },
+    metadata @lengthOf(u8x),
+    repeat crc {
+        uint32 Packet,
+    },
+    @calculatedFrom(""" ++ [128512]%N ++ runes_of_ascii """)
+    T u128 `{ , }`,
+    repeat i32 msg_type,
+    @lengthOf(T)
+    int,
+    float {
+        // @lengthOf(
+        // `tick` ""quote"" 'q'
+        match trueish as leftPad {
+            [0, """ ++ [28040; 24687]%N ++ runes_of_ascii """] : f32a,
+        },
+        uint32 i8i8,
+        Packet {
+            char[65535] o @calculatedFrom(""it's""),
+        },// a // b
+    },
+    uint8 i8i8 `say ""hi""`,
+}/// triple
+
+packet BodyLength {
+}")).
+Eval vm_compute in ("<<<M358>>>" ++ check (runes_of_ascii "packet	matchKey { } packet rootA {} root packet lengthOf { // trailing space 
+@tag(
+0 //x
+)uint16 repeatCount
+    , //x
+uint32 rootA @calculatedFrom(""it's""
+// packet A { u8 x, }
+// `tick` ""quote"" 'q'
+)
+,
+//	t
+// a // b
+string uint8x /// triple
+,  u128@calculatedFrom(
+""" ++ [28040; 24687]%N ++ runes_of_ascii """ ) ,@leftPad
+( '\x00' ) u  `a\` , @leftPad( ' ' ) @calculatedFrom(
+""1"" ) @lengthOf( int )match msg_type
+// " ++ [128512]%N ++ runes_of_ascii " emoji
+// a // b
+as Pad{
+""abc""// " ++ [27880; 37322]%N ++ runes_of_ascii "
+: asx }
+    , options1 {
+    char[]  metadata // trailing space 
+, Logon@lengthOf( zchar ) , repeatCount {
+zchar[255 ] tag
+    ,x_y_z msg_type,// `tick` ""quote"" 'q'
+pack, MetaDataX @lengthOf(  falsey )
+    , }
+, zchar  @lengthOf( Header  )
+,  } ,@tag( 42 ) char[
+    007 ] i64_
+,
+// trailing space 
+//	t
+@lengthOf( As
+) match crc  as/// triple
+MetaDataX {65535 :leftPad
+""a\""b"" : BodyLength , 42:	crc
+    ,
+    // " ++ [27880; 37322]%N ++ runes_of_ascii "
+    0123456789: body , ""abc""
+:	stringy
+,	""CRC32"":
+    x_y_z,} ,
+    //
+    int32 Header @lengthOf(
+// @lengthOf(
+//
+asx // " ++ [27880; 37322]%N ++ runes_of_ascii "
+) , } packet packetx
+{	}root packet
+float//	t
+{ @tag( 1 ) @lengthOf(
+_x) @leftPad ( '0'
+    )
+repeat // c
+i64_ ,}
+")).
+Eval vm_compute in ("<<<M658>>>" ++ check (runes_of_ascii "// @lengthOf(
+packet BodyLength { char T
+    , } root packet
+A
+{
+repeat len `say ""hi""` ,repeat Pad{ repeat char[] // " ++ [128512]%N ++ runes_of_ascii " emoji
+stringy  , repeat
+rootA
+{ uint64
+Foo @lengthOf( // `tick` ""quote"" 'q'
+options1 ) // @lengthOf(
+`it's` ,
+//x
+/// triple
+zchar { zchar[
+42] Z9_
+,
+    repeat o  i8i8 ,
+uint8 x `it's` ,
+    rootA Foo
+`{ , }`, }
+, }
+,
+metadata
+@calculatedFrom( ""a	b"" )
+, } ,  @tag(	1) string
+    // c
+    u `doc`
+    //	t
+    ,  u
+@calculatedFrom(
+    ""it's"")
+    ``,char[ 7 ]	packetx@lengthOf( A ) `{ , }`	, string _x `
+` ,
+float32 _x , repeat char[ 42 ] rootA
+`doc` ,} MetaData matchKey {
+zchar[ 0123456789
+    ]falsey
+    `` , }  packet Logon
+{ @lengthOf( zchar ) match leftPad as falsey
+    {
+3 : Packet , 007 :// `tick` ""quote"" 'q'
+zchar
+1 : // @lengthOf(
+float ,	""it's"" :
+body""CRC32""
+    // " ++ [128512]%N ++ runes_of_ascii " emoji
+    :  body } , @calculatedFrom(""{,}"") zchar[
+    1 ] i8i8 @lengthOf(
+uint8x  )
+,
+zchar[ 00]
+    // `tick` ""quote"" 'q'
+    a1
+, uint64
+    u , string Packet @calculatedFrom( ""packet"" ), }
+")).
+Eval vm_compute in ("<<<M3618>>>" ++ check (runes_of_ascii "
+options
+
+    {LittleEndian
+= true  ;StringPrefixLenType
+    =u16
+	;
+	ArrayPrefixLenType	= u8
+	;
+
+FixedStringPadChar= 
+'0'	;
 
     }
-	, string	uint8x
-`it's` ,repeat
-    uint16	u8x ,  }
-packet
-zchar
-
-    {// a // b
-
-  zchar[
-
-255
-	] chars@calculatedFrom(
-""packet"")
-
-    ,
-match  BodyLength
-
-as 	 //x
-	x_y_z
-{ ""\n"":	u128,
-
-    00  : 
-Packet ,
-
-    }  ,  @leftPad  ( '\x00'
-
-)
-
-    repeat	o	{	Z9_
-
-    @lengthOf(
-
-    asx  )
-    ,
-	} , // trailing space 
-	@calculatedFrom( """ ++ [28040; 24687]%N ++ runes_of_ascii """
-
-    )repeat
-    // `tick` ""quote"" 'q'
-    	u64
-
-trueish ,	i32
-charz ,
-x
-
-    `tab	here` ,
-
-    string  // c
-u128 	 // a // b
-  `// not a comment`
-,	len{match
-	chars
-
-    as
-    Foo
-	    // @lengthOf(
-	// packet A { u8 x, }
-{ """" 
-:
-
-    u ""packet""
-: matchKey
-	,""// no comment""
-
-    :
-
-    packetx
-
-[ 
-65535 ,
-	""it's""
-	,
-
-""" ++ [128512]%N ++ runes_of_ascii """
-    , 
-0123456789 // trailing space 
-    ,""a\\""
-,	""a\\"" ,
-""" ++ [28040; 24687]%N ++ runes_of_ascii """,  ""{,}""] : len
-, 
-
-// " ++ [27880; 37322]%N ++ runes_of_ascii "
-  	""\" ++ [233]%N ++ runes_of_ascii """  :msg_type 
+	packet	Logout
+{  repeat	i16 f1 
 ,
-	""abc""
+string Ref ,
+@rightPad
+(
+    '\x00')char[
 
-: o  // @lengthOf(
-} , }	,	@calculatedFrom( 
-"""" )
-match	// trailing space 
-    falsey as calculatedFrom { // `tick` ""quote"" 'q'
-		[
-	1
-, """ ++ [233]%N ++ runes_of_ascii "t" ++ [233]%N ++ runes_of_ascii """
+9
+    ]
+Tail  ,
+repeat
+char[
 
+6
+
+]Flags
+,  repeat  char[
+
+    3 ] Acct
+    ,}
+packet
+
+Party	{	char[2
+] 
+f1
+,
+	u8
+Side2
+
+    ,
+@leftPad
+( ' '
+) char[ 1
+    ]
+
+    venue
+,	}
+    packet
+	Order
+
+    { repeat
+    i64
+    Ref  ,InPx62 {
+
+i32 OrderId
+	,} , InNote53
+
+    {
+InClordid80
+	{ char[] Acct ,	u32 
+Px
+    , repeat	Party 
+, 
+}  ,InPrice12	{ 
+u8 pad0 ,
+}
+    ,  repeat Logout ,
+
+    InFlags23
+{ repeat
+string seqNo
+, string  sym
+
+,
+    int8
+Flags , zchar[
+    5 
+] 
+lastPx
+
+, zchar[
+
+    6 
+]Px ,
+} , char[
+10
+    ]Acct
+
+,
+    InPx18 
+{ zchar[ 2 
 ]
 
-:body  ,
-""`tick`""
-	:
+count ,
 
-calculatedFrom 
-, 3
-    :
-	x_y_z , ""it's"" :
-
-Packet
-
+    Party	,
+    } ,	}
+, 
+char[  5
+	]
+	Side2
 ,
-	[ 007]	: 
-Foo,
-""" ++ [128512]%N ++ runes_of_ascii """ :Foo,  } ,// " ++ [27880; 37322]%N ++ runes_of_ascii "
-	match leftPad
-    as
-stringy{""a\\""
 
-:
-    T
+    char[  1 ] Acct	,
 
-, }  ,
-}")).
-Eval vm_compute in ("<<<M578>>>" ++ check (runes_of_ascii "packet u128 {
-@calculatedFrom(
-""" ++ [28040; 24687]%N ++ runes_of_ascii """ )
-stringy { match falsey
-as Z9_ { // @lengthOf(
-""packet"": float
-    //	t
-    , } , match uint8x as x_y_z
-{ 3 :i64_ ,
-//
-// " ++ [128512]%N ++ runes_of_ascii " emoji
-""CRC32"" :float
-    , 007 : falsey ,  0123456789 : //x
-Packet , [
-    ""it's""
-// packet A { u8 x, }
-// " ++ [128512]%N ++ runes_of_ascii " emoji
-, ""\" ++ [233]%N ++ runes_of_ascii """ ] : calculatedFrom,}
-,uint16
-uint8x `it's`
-, repeat i8 repeatCount,} ,
-u8 string_
-,
-    // trailing space 
-    @lengthOf(
-    body ) @rightPad (
-    '\x00' ) zchar[ 65535 ] trueish @calculatedFrom(
-""`tick`"" ) , @rightPad ( ) charz @lengthOf(
-A) , MetaDataX,
-@tag(
-    3) char[ 3 ] x	`doc`
-,repeat
-    i8i8 {
-    string Z9_,  } ,
-} // @lengthOf(
-root packet chars
-    // " ++ [27880; 37322]%N ++ runes_of_ascii "
-    {
-    string_ , u16
-trueish `
-` , float32 Pad
-@lengthOf(metadata )
-`" ++ [28040; 24687; 31867; 22411]%N ++ runes_of_ascii "`,repeatCount ,  @lengthOf( x )	char[]uint8x @lengthOf( T )// a // b
-`tab	here`	, A	{ char rootA // packet A { u8 x, }
-`
-` // a // b
-, int64 f32a
-    //	t
-    ,
-    Packet { repeat i16
-    Foo
-`it's` , /// triple
-zchar[65535 ]
-stringy
-    @calculatedFrom( ""1"" )`
-` , // trailing space 
-}  , int
-    // " ++ [128512]%N ++ runes_of_ascii " emoji
-    ,
-    } , // trailing space 
-charz
-// `tick` ""quote"" 'q'
-//	t
-metadata,
-@calculatedFrom( ""\" ++ [233]%N ++ runes_of_ascii """
-)
-match o
-as matchKey {	""abc""
-: zchar , // " ++ [27880; 37322]%N ++ runes_of_ascii "
-""CRC32"": As// packet A { u8 x, }
-""packet"": Packet// `tick` ""quote"" 'q'
-,
-    ""x y"" :pack
-[0 , 10 , 00 ,  ""\n"",65535,""1"" ]:
-As // trailing space 
-, } /// triple
-, //
-}options
-{ } packet leftPad {@calculatedFrom( ""a\\""
-    ) @lengthOf(len
-    ) @tag(
-1)
-char[
-255] u8x,
-    @calculatedFrom( ""// no comment"" )
-    int32 //	t
-len@lengthOf( _x ) // " ++ [27880; 37322]%N ++ runes_of_ascii "
-,@calculatedFrom(
-""" ++ [28040; 24687]%N ++ runes_of_ascii """ ) repeat Logon int `" ++ [28040; 24687; 31867; 22411]%N ++ runes_of_ascii "`
-    ,
-    match As as
-packetx {
-    ""a	b"" : uint8x ,
-    // a // b
-    }
-, char[ 0
-    ] charz @lengthOf( i8i8) , chars
-metadata , @tag( 0123456789)
-//
-// trailing space 
-BodyLength // packet A { u8 x, }
-, }
+}root
+packet
+Ack
+{ 
+u32
+Tail ,repeat	char[  4 ]
+
+msgKind,  repeat
+
+Logout , }
 ")).
-Eval vm_compute in ("<<<M939>>>" ++ check (runes_of_ascii "MetaData
-Logon {
-    string_ MetaDataX
-`
-` ,}root packet Pad
-{ asx
-@lengthOf(BodyLength )
-,
-}
-    packet
-Pad {
-@calculatedFrom( ""a	b""
-) zchar[ 7]x	`a\` , @lengthOf(msg_type
-// " ++ [27880; 37322]%N ++ runes_of_ascii "
-// trailing space 
-) int32 Logon  @lengthOf(u128//	t
-)
-`two words`,	@lengthOf(asx)
-match o
-    as
-    asx {1 : crc , 00:f32a, }
-    ,
-char[ 1
-    ]
-leftPad @lengthOf(
-    string_ ) `
-` , f32
-    // a // b
-    trueish @calculatedFrom(//x
-"""" )``
-    // " ++ [128512]%N ++ runes_of_ascii " emoji
-    ,As ,
-x_y_z
-{ match	Packet as int { 007: x , // packet A { u8 x, }
-""" ++ [28040; 24687]%N ++ runes_of_ascii """  :
-    options1 , ""packet""
-:// packet A { u8 x, }
-repeatCount ""\n"" :
-x
-, }
-    //
-    ,char[]
-    i8i8 @lengthOf( x_y_z )
-`two words` ,match crc as
-x_y_z{""CRC32"" : Z9_, } , packetx ,
-} ,
-repeat
-    char[0
-// packet A { u8 x, }
-// `tick` ""quote"" 'q'
-] asx , @calculatedFrom(
-""1"" ) char[
-00 ] float,repeat i32 msg_type	,
-} packet x_y_z { // `tick` ""quote"" 'q'
-@calculatedFrom(
-    ""a\\"")
-    @calculatedFrom( ""packet""  ) uint8x @calculatedFrom( """" ) ,
-    //	t
-    @lengthOf( x )	u8x x, @calculatedFrom(
-    ""a	b"" ) int16 pack
-// packet A { u8 x, }
-//x
-, match  Pad as
-T
-//	t
-// @lengthOf(
+Eval vm_compute in ("<<<M287>>>" ++ check (runes_of_ascii "
+root packet	Foo {
+Packet
 {
-    [ 00 ] : leftPad ,
-    ""CRC32""
-    : body	, //x
-3 :
-    zchar
-1:  u8x  7 : options1	,
-4294967296 :falsey
-    /// triple
-    , } , }
-    packet T {
-    zchar[
-65535 ]//x
-roots ,
-    int x`crlf
-line`
-,@lengthOf( //	t
-int)charz {	i64_
-    `" ++ [28040; 24687; 31867; 22411]%N ++ runes_of_ascii "` ,zchar[
-    // `tick` ""quote"" 'q'
-    42 ]
-    len
-    // @lengthOf(
-    @calculatedFrom( // " ++ [128512]%N ++ runes_of_ascii " emoji
-""" ++ [233]%N ++ runes_of_ascii "t" ++ [233]%N ++ runes_of_ascii """ ),	repeat
-i8 o , // " ++ [27880; 37322]%N ++ runes_of_ascii "
-char[0 ] // a // b
-options1`doc` , } ,
-@lengthOf( roots ) string
-Header, }")).
-Eval vm_compute in ("<<<M469>>>" ++ check (runes_of_ascii "root
-    packet Header { /// triple
-repeat// " ++ [128512]%N ++ runes_of_ascii " emoji
-int64 _x
-`crlf
-line`//x
-, int16 leftPad , @rightPad( ) uint64 Packet @calculatedFrom( ""abc"" ) `doc` , @rightPad
-    (
-    '0') uint8x
-{ u8 Logon
-    , repeat x_y_z	{	a1 Header `it's`,
-    char[0  ]
-    /// triple
-    pack
-// @lengthOf(
-// trailing space 
-@calculatedFrom(
-    ""a	b""	) `line1
-line2` ,
-o @lengthOf( Header
-    ) `tab	here`
-    ,
-} , rootA zchar ,u128 , } ,@lengthOf( // trailing space 
-string_ )
-    //	t
-    match Foo as calculatedFrom { 0123456789: chars ,007 : string_
-    ,[
-    ""\n"", 4294967296 ] :  leftPad ,""\n"" : u , }, f64 packetx `
-` // c
-,	}
-    packet o
-    {@rightPad// trailing space 
-(
-) // " ++ [128512]%N ++ runes_of_ascii " emoji
-repeat
-    chars `it's`
-// @lengthOf(
-// `tick` ""quote"" 'q'
-,
-    } MetaData
-A
-// trailing space 
-// c
-{ // c
-uint64 i64_ `" ++ [233]%N ++ runes_of_ascii "`,  } root packet	int
-    { @tag(
-10
-) //x
-repeat a1 body  , @lengthOf( options1// packet A { u8 x, }
-) falsey
+u32 chars `{ , }`
+// a // b
+// " ++ [128512]%N ++ runes_of_ascii " emoji
+, zchar[ // " ++ [27880; 37322]%N ++ runes_of_ascii "
+255 ] Foo
+    , } , f32a @lengthOf( MetaDataX ) `doc` , As`say ""hi""`
+,  char[] crc @calculatedFrom( """ ++ [28040; 24687]%N ++ runes_of_ascii """
+)`say ""hi""` ,	int32 T//x
+`// not a comment` , @lengthOf( x )
     //
-    { repeat zchar[ 0
+    pack
+{  match
+i8i8 as trueish
+    { ""x y"" : BodyLength, [
+// `tick` ""quote"" 'q'
+// packet A { u8 x, }
+""\n""
+    ,007,
+    ""// no comment"" ,
+//x
+// " ++ [128512]%N ++ runes_of_ascii " emoji
+42
+,
+""1"" , 65535// " ++ [128512]%N ++ runes_of_ascii " emoji
+,10 ] :
+    a1 ,[ ""{,}""
+]
+: metadata
+, ""a	b"" : As , }	,
+} ,
+match f32a	as
+    A
+    {""abc"": rootA
+    4294967296 : /// triple
+Z9_
+    // c
+    , [
+007 , ""a\""b""	, 00
+    , 42 ,
+1	,0123456789 ,""x y""
+] : Foo , }, char[ 7 ] i64_
+    `it's` , @lengthOf( pack ) repeat As , } MetaData
+charz	{ u64 asx, } packet x { }MetaData MetaDataX{A a1
+    // " ++ [128512]%N ++ runes_of_ascii " emoji
+    , char[]	x`a\` ,uint16 leftPad , }options
+{
+a1 =
+    42
+; BodyLength	= true
+;
+x_y_z =int16 } 	 ")).
+Eval vm_compute in ("<<<M895>>>" ++ check (runes_of_ascii "options { Foo =
+    // trailing space 
+    ""\" ++ [233]%N ++ runes_of_ascii """roots = ""`tick`""
+// trailing space 
+//	t
+; crc = ""packet"" ; falsey= // a // b
+1
+float = u32	; } packet
+options1	{
+    match Header as Packet { [ ""abc""
+    ] : Header , ""`tick`"" : i64_, [ 7 ,
+/// triple
+//x
+"""", 3 ] : Z9_	,
+    [ ""// no comment"" ,
+""x y"" , """ ++ [28040; 24687]%N ++ runes_of_ascii """ , 1, ""a	b"" ] : x_y_z
+,""a\""b"" :float// c
+} , // @lengthOf(
+i8i8 _x,  @rightPad ( '\x00')	zchar[
+0
+    ] string_ ,}packet u8x {@lengthOf(  packetx) char[ 42
+    ]
+    // `tick` ""quote"" 'q'
+    _x,
+    f64 matchKey `it's`
+, match repeatCount
+as
+roots
+    {
+// packet A { u8 x, }
+// " ++ [27880; 37322]%N ++ runes_of_ascii "
+[
+""CRC32""
+,
+""" ++ [128512]%N ++ runes_of_ascii """
+    ] : i8i8 ,} ,
+    // " ++ [27880; 37322]%N ++ runes_of_ascii "
+    @lengthOf(
+len ) @rightPad
+( ' '	) u stringy	`say ""hi""` ,// @lengthOf(
+repeat char[ 7  ] pack	`" ++ [28040; 24687; 31867; 22411]%N ++ runes_of_ascii "`,	@tag( 42	) string u8x`// not a comment`
+    , } root packet As
+    {	int32 x
+@calculatedFrom( ""\n"" ) , }
+")).
+Eval vm_compute in ("<<<M211>>>" ++ check (runes_of_ascii "packet f32a
+    { @calculatedFrom(""1"" )
+_x { string
+/// triple
+//	t
+metadata@calculatedFrom( ""`tick`""	) `// not a comment` ,  match // packet A { u8 x, }
+Foo as  len { 42//
+:Z9_ , //x
+}  , }
+,} packet /// triple
+options1{ @lengthOf(A )roots
+@lengthOf(// packet A { u8 x, }
+msg_type ) `line1
+line2` , int32/// triple
+a1 `it's` , @calculatedFrom( ""packet""
+    )repeat string T , @lengthOf( i64_ ) @calculatedFrom(
+""packet""
+) @tag( 007
+) int16 asx@calculatedFrom(
+""it's""
+    )//	t
+`doc` , repeat i32
+charz, metadata // packet A { u8 x, }
+`// not a comment` , }  packet
+Logon{ }
+options {
+}
+root
+packet tag  { @lengthOf(
+    Logon
+)
+charz { string stringy`// not a comment`	,
+uint64 int,char
+    i64_ `it's`
+// packet A { u8 x, }
+// a // b
+, } ,
+//	t
+//
+u8
+i64_ , zchar[ 1 ] float
+, } /// triple")).
+Eval vm_compute in ("<<<M220>>>" ++ check (runes_of_ascii "
+MetaData BodyLength
+{  int32 chars
+    `u8 x,` , char[
+0123456789 ] // c
+matchKey `a\` ,
+char[]
+    //
+    A , } packet//x
+u128
+    {}
+packet rootA
+{float64// c
+roots ,  @lengthOf(
+    float// `tick` ""quote"" 'q'
+)//	t
+repeat BodyLength { BodyLength{
+    repeat
+f64 Packet, char[ 7
+/// triple
+//	t
+] As `doc` ,
+}
+    ,
+} , calculatedFrom
+{i16  o@lengthOf(
+    Logon ) `doc`, Foo u128 ,	char// @lengthOf(
+u @lengthOf(  _x
+) ,  },@tag( 1  )@rightPad // `tick` ""quote"" 'q'
+(' '
+) char[]msg_type
+// trailing space 
+// trailing space 
+, } packet
+calculatedFrom
+{
+    char[] rootA@calculatedFrom( ""a	b"" ) ,
+}	options
+//	t
+// packet A { u8 x, }
+{
+    o =
+""// no comment"" matchKey
+    = '\x00' ;
+    u
+    = """"
+leftPad = ""CRC32""; A= ""CRC32"" ; } // trailing space ")).
+Eval vm_compute in ("<<<M380>>>" ++ check (runes_of_ascii "root
+    packet
+    stringy{	u8x @lengthOf( A)
+    , match f32a as // trailing space 
+options1
+// " ++ [27880; 37322]%N ++ runes_of_ascii "
+//	t
+{[
+""a\""b"" ,	0123456789 ] : trueish[
+    ""a\\""
+, 3
+, 65535
+    , 255 ,
+    """ ++ [233]%N ++ runes_of_ascii "t" ++ [233]%N ++ runes_of_ascii """, 65535 , ""\" ++ [233]%N ++ runes_of_ascii """ ] // `tick` ""quote"" 'q'
+:  body,},
+@calculatedFrom( """ ++ [128512]%N ++ runes_of_ascii """ ) repeat uint16 int //
+,repeat
+/// triple
+/// triple
+tag	, @leftPad () match int as u8x //
+{[ 65535 ,	""" ++ [233]%N ++ runes_of_ascii "t" ++ [233]%N ++ runes_of_ascii """
+    ] :
+    metadata
+,
+    }//x
+, @rightPad  () repeat zchar[ 7
+//	t
+// packet A { u8 x, }
+] Logon
+//
+//	t
+`crlf
+line`
+, As
+// " ++ [128512]%N ++ runes_of_ascii " emoji
+// packet A { u8 x, }
+{
+int64 roots , } , // packet A { u8 x, }
+@tag(255
+) int64 charz @calculatedFrom(
+""a	b"" ) , BodyLength lengthOf  ,float64
+As,  }packet	Foo { char[ 4294967296 ]float `u8 x,`
+    , } packet _x { }
+")).
+Eval vm_compute in ("<<<M3919>>>" ++ check (runes_of_ascii "
+
+  packet
+	msg_type
+// packet A { u8 x, }
+
+	{	//	t
+string	packetx
+@lengthOf(
+
+    charz )
+
+    ,
+	@calculatedFrom(
+
+    """" )
+repeat
+    char[
+0123456789
     ]
     // c
-    i64_ ,repeat u
-{ char[42 ] u8x
-@calculatedFrom( ""a\""b"") ,char[ 255 ] lengthOf @lengthOf( body
+int
+
+    `it's`
+, @rightPad
+
+    (	// packet A { u8 x, }
+
+  )
+	@tag(
+	42
+    )@calculatedFrom(
+""`tick`""
+
+    )
+
+repeat
+uint16
+    falsey`" ++ [233]%N ++ runes_of_ascii "` ,	i32
+Foo
+, 
+@tag(  7 
 )
-    `u8 x,`	, },repeat
-    pack {
-    trueish body
-`u8 x,`,
-match Logon as charz { [ 7] : x_y_z """ ++ [233]%N ++ runes_of_ascii "t" ++ [233]%N ++ runes_of_ascii """ : int ,
-""abc"" : u ,
-    42 : // trailing space 
-metadata, 10 : leftPad , }
-    ,//x
-char[ 10
-]trueish `tab	here` ,} ,
-}, }
-// @lengthOf(
+
+u64
+chars
+
+@lengthOf( 
+BodyLength  )	,
+
+    i16	Z9_
+    @lengthOf(	/// triple
+	a1
+)
+
+, @lengthOf( leftPad )lengthOf body
+
+    ``
+
+,	@tag(007 )  char[
+10	//x
+	]
+    _x 
+      // a // b
 // " ++ [27880; 37322]%N ++ runes_of_ascii "
-options
-    //x
-    { rootA = ""`tick`"" As
-    =
-7 ;}
+    @lengthOf(roots
+) `
+`  , // a // b
+
+@calculatedFrom(""a\\"" )
+	float64 	 //	t
+rootA`doc` ,
+string
+T@calculatedFrom(
+	""""
+) 
+, 
+}
 ")).
-Eval vm_compute in ("<<<M4372>>>" ++ check (runes_of_ascii "MetaData falsey {
-    char[] f32a `" ++ [28040; 24687; 31867; 22411]%N ++ runes_of_ascii "`,
-    u8x len `" ++ [233]%N ++ runes_of_ascii "`,
-    char[] uint8x,
-    f32 trueish,
-    char[10] len `two words`,
-    rootA int,
+Eval vm_compute in ("<<<M4090>>>" ++ check (runes_of_ascii "root packet stringy {
+    u8x @lengthOf(A),
+    match f32a as options1 {
+        [""a\""b"", 0123456789] : trueish,
+        [
+            ""a\\"", 3, 65535, 255, """ ++ [233]%N ++ runes_of_ascii "t" ++ [233]%N ++ runes_of_ascii """,
+            65535, ""\" ++ [233]%N ++ runes_of_ascii """
+        ] : body,
+    },
+    @calculatedFrom(""" ++ [128512]%N ++ runes_of_ascii """)
+    repeat uint16 int,
+    repeat tag,
+    @leftPad()
+    match int as u8x {
+        [65535, """ ++ [233]%N ++ runes_of_ascii "t" ++ [233]%N ++ runes_of_ascii """] : metadata,
+    },
+    @rightPad()
+    repeat zchar[7] Logon `crlf
+        line`,
+    As {
+        int64 roots,
+    },// packet A { u8 x, }
+    @tag(255)
+    int64 charz @calculatedFrom(""a	b""),
+    BodyLength lengthOf,
+    float64 As,
+}
+
+packet Foo {
+    char[4294967296] float `u8 x,`,
+}
+
+packet _x {
+}")).
+Eval vm_compute in ("<<<M186>>>" ++ check (runes_of_ascii "packet Packet { @tag(	65535 ) @leftPad ( ' '
+    )
+@tag( 255
+    /// triple
+    )
+    uint8
+len
+    @lengthOf( T), int32 u8x , @lengthOf( rootA )float32 i64_
+`u8 x,` , } packet// c
+int { repeat	i8i8
+{lengthOf
+    @lengthOf( int)`line1
+line2`
+, string	falsey `
+` ,uint16
+// `tick` ""quote"" 'q'
+// trailing space 
+roots
+@lengthOf(
+charz), } , }options
+    { Foo = ' '	len  = """ ++ [128512]%N ++ runes_of_ascii """
+; chars= u64 ;
+//x
+//
+uint8x // a // b
+=	""" ++ [128512]%N ++ runes_of_ascii """
+    // trailing space 
+    ;metadata= ' ' ; }
+    // " ++ [27880; 37322]%N ++ runes_of_ascii "
+    MetaData Header
+    // " ++ [27880; 37322]%N ++ runes_of_ascii "
+    {
+i16
+    matchKey,Packet Packet `u8 x,`  , }packet u128 {uint8x
+@lengthOf(charz) `u8 x,`	, }
+")).
+Eval vm_compute in ("<<<M4011>>>" ++ check (runes_of_ascii "// packet A { u8 x, }
+packet zchar {
+    uint32 matchKey,
+    i32 leftPad @calculatedFrom(""1"") `crlf
+    line`,
+    _x {
+        f32a @calculatedFrom(""`tick`""),// packet A { u8 x, }
+        char metadata `u8 x,`,
+        // c
+        char[] a1 @lengthOf(float) `a\`,
+    },
+    @lengthOf(A)
+    /// triple
+    zchar[0123456789] Header @lengthOf(o) `" ++ [28040; 24687; 31867; 22411]%N ++ runes_of_ascii "`,
+    @tag(00)
+    x `it's`,
+    i8 msg_type @lengthOf(len) `
+    `,
+    @tag(00)
+    repeat matchKey {
+        string u `" ++ [28040; 24687; 31867; 22411]%N ++ runes_of_ascii "`,
+        u8 u @calculatedFrom(""a\""b""),
+        i8 len,
+        packetx,
+    },
+}
+
+options {
+    Foo = 0;
+}")).
+Eval vm_compute in ("<<<M1087>>>" ++ check (runes_of_ascii "  packet
+    falsey { float64	calculatedFrom`
+`, /// triple
+@tag(
+42 )
+repeatCount {
+match repeatCount as  A	{
+    0 : f32a
+    ,
+    } ,
+uint16 f32a @calculatedFrom(
+""a\\"" )  `// not a comment`  , crc {
+    char[ 3 ]
+Logon // `tick` ""quote"" 'q'
+@calculatedFrom(
+""packet"" ), repeat
+u128
+    {zchar[
+    42 ]lengthOf `crlf
+line` ,Pad roots `line1
+line2`
+,
+}
+// packet A { u8 x, }
+// trailing space 
+,
+// packet A { u8 x, }
+// `tick` ""quote"" 'q'
+}
+,}	,
+} packet uint8x	{repeat u8
+body , }packet
+asx	{
+zchar[ 255]
+// " ++ [128512]%N ++ runes_of_ascii " emoji
+// trailing space 
+asx ,}
+")).
+Eval vm_compute in ("<<<M178>>>" ++ check (runes_of_ascii "
+packet
+// packet A { u8 x, }
+// " ++ [27880; 37322]%N ++ runes_of_ascii "
+matchKey {} packet
+    string_ { matchKey @lengthOf(
+asx)
+    ,@rightPad ( ' '
+) metadata
+,
+// a // b
+// @lengthOf(
+o //
+chars ,  uint16 tag `u8 x,` ,
+repeat  float32 Logon  `two words` , /// triple
+matchKey	@calculatedFrom( ""a	b""
+)`doc`
+    ,
+repeat packetx
+a1 ,} MetaData Packet //
+{
+char[]
+    pack, string  zchar ,zchar[
+//	t
+// trailing space 
+1 ] x_y_z, int64
+    charz
+`say ""hi""`, u32
+lengthOf
+    `doc`
+,}
+options
+    { a1
+= int16 ; crc =' ';tag = char[ 42]
+leftPad
+    = true ; }")).
+Eval vm_compute in ("<<<M1032>>>" ++ check (runes_of_ascii "MetaData  lengthOf
+{
+}	root packet //x
+falsey
+// " ++ [128512]%N ++ runes_of_ascii " emoji
+//x
+{ Pad // a // b
+{
+zchar[ 1
+] Z9_ , msg_type
+    x_y_z , match u8x as trueish {
+    """ ++ [28040; 24687]%N ++ runes_of_ascii """
+:	asx,} , }	, // `tick` ""quote"" 'q'
+@lengthOf( rootA ) match zchar as int{
+""`tick`"" :
+    len , ""{,}"" : MetaDataX ,}	,
+i64 rootA
+    //x
+    `" ++ [28040; 24687; 31867; 22411]%N ++ runes_of_ascii "` ,
+@calculatedFrom( ""it's"" )repeat
+    /// triple
+    metadata
+    ,
+    T @lengthOf( u128 ) , uint64 Pad , // " ++ [27880; 37322]%N ++ runes_of_ascii "
+falsey x ,	int16	leftPad
+    , //	t
+falsey  @lengthOf( matchKey), zchar[ 255 ] u128`u8 x,` ,
+}")).
+Eval vm_compute in ("<<<M761>>>" ++ check (runes_of_ascii "MetaData a1
+{
+// `tick` ""quote"" 'q'
+//	t
+_x  asx ,} MetaData Packet
+{	BodyLength
+    int, } root packet x	{ @leftPad(' ' ) f64
+// a // b
+// `tick` ""quote"" 'q'
+repeatCount@lengthOf(
+x // c
+) `line1
+line2`
+, @rightPad// @lengthOf(
+('\x00'
+    )match i8i8 as pack{ [ 10
+, """ ++ [128512]%N ++ runes_of_ascii """, 10
+, ""a	b"" ,
+1// trailing space 
+,
+// c
+// " ++ [128512]%N ++ runes_of_ascii " emoji
+7 ] : leftPad [ 255 , 10 ,0 , 1 , """ ++ [233]%N ++ runes_of_ascii "t" ++ [233]%N ++ runes_of_ascii """, ""x y""  ]: A """ ++ [28040; 24687]%N ++ runes_of_ascii """ :
+    u, 00 :  charz ,
+    // a // b
+    """ ++ [28040; 24687]%N ++ runes_of_ascii """
+:
+len 0:
+    As, } ,
+f32 x
+`" ++ [233]%N ++ runes_of_ascii "` , }	MetaData x {}")).
+Eval vm_compute in ("<<<M547>>>" ++ check (runes_of_ascii "options { As
+    =u16
+body =char[]
+} MetaData options1
+{ //
+zchar[1 ] T
+`{ , }`, stringy BodyLength
+    ,uint16 matchKey
+    , //	t
+char[ 255
+// `tick` ""quote"" 'q'
+// " ++ [128512]%N ++ runes_of_ascii " emoji
+] _x// trailing space 
+, o o `a\`
+, }
+packet chars
+{
+f32a
+{
+repeat a1,
+    repeat charz	x_y_z , asx,
+    rootA len
+`crlf
+line` ,
+}
+,// " ++ [27880; 37322]%N ++ runes_of_ascii "
+} root packet Header { string float
+`
+`
+,//	t
+} options
+{ T
+    = false options1 =
+    ""packet"" matchKey
+    =zchar[00 ] ; string_	= false ; }
+")).
+Eval vm_compute in ("<<<M3581>>>" ++ check (runes_of_ascii "// top
+packet // c0
+A
+    // c1
+{ // c2a
+  // c2b
+u8 // c3a
+  // c3b
+a // c4a
+  // c4b
+, } packet // c7
+B
+    // c8
+{ // c9
+u16 // c10
+b , // c12a
+  // c12b
+} // c13
+root // c14a
+  // c14b
+packet P // c16
+{ u8 // c18
+K // c19
+, // c20a
+  // c20b
+match // c21a
+  // c21b
+K
+    // c22
+as // c23a
+  // c23b
+M
+    // c24
+{
+    // c25
+1 // c26a
+  // c26b
+: // c27
+A // c28
+, 1 : // c31a
+  // c31b
+B // c32
+, // c33
+} // c34
+,
+    // c35
+} // c36
+")).
+Eval vm_compute in ("<<<M1090>>>" ++ check (runes_of_ascii "root packet MetaDataX
+{@leftPad ( '\x00' ) i8i8 @lengthOf( charz
+) ,repeat
+u8x `crlf
+line` ,
+    zchar
+    `line1
+line2`
+, @lengthOf( stringy
+    )repeat
+char[ 00] // trailing space 
+packetx , }
+    /// triple
+    root packet
+charz { match
+    repeatCount
+    as
+float {
+    //	t
+    0123456789
+    // a // b
+    : Packet ,	}
+    , string
+    // trailing space 
+    x_y_z	@calculatedFrom(
+    ""\n"" )
+,
+    }  options
+{ }")).
+Eval vm_compute in ("<<<M3522>>>" ++ check (runes_of_ascii "// top
+packet
+    // c0
+float
+    // c1
+{
+    // c2
+repeat
+    // c3
+i8i8
+    // c4
+MetaDataX
+    // c5
+`it's`
+    // c6
+,
+    // c7
+rootA
+    // c8
+,
+    // c9
+repeat
+    // c10
+int8
+    // c11
+int
+    // c12
+,
+    // c13
+match
+    // c14
+repeatCount
+    // c15
+as
+    // c16
+x_y_z
+    // c17
+{
+    // c18
+""{,}""
+    // c19
+:
+    // c20
+Logon
+    // c21
+,
+    // c22
+}
+    // c23
+,
+    // c24
+}
+    // c25
+")).
+Eval vm_compute in ("<<<M1347>>>" ++ check (runes_of_ascii "options {	x=
+    ""// no comment"" }	packet trueish { @lengthOf(
+_x )Header // " ++ [128512]%N ++ runes_of_ascii " emoji
+{
+char[]
+    Pad @calculatedFrom( """ ++ [28040; 24687]%N ++ runes_of_ascii """ )  ,  float64 msg_type , }	,repeat string
+    packetx `u8 x,`, match Header
+    as  charz
+    {
+    65535: pack
+    ,} // " ++ [128512]%N ++ runes_of_ascii " emoji
+, } packet float { } root packet A { @calculatedFrom(	""x y"" )// @lengthOf(
+string
+// " ++ [128512]%N ++ runes_of_ascii " emoji
+// " ++ [128512]%N ++ runes_of_ascii " emoji
+len @lengthOf( metadata
+)
+, }")).
+Eval vm_compute in ("<<<M4202>>>" ++ check (runes_of_ascii "options {
+    x = ""// no comment""
+}
+
+packet trueish {
+    @lengthOf(_x)
+    Header {
+        char[] Pad @calculatedFrom(""" ++ [28040; 24687]%N ++ runes_of_ascii """),
+        float64 msg_type,
+    },
+    repeat string packetx `u8 x,`,
+    match Header as charz {
+        65535 : pack,
+    },
+}
+
+packet float {
 }
 
 root packet A {
-    Z9_,
-    repeat MetaDataX `it's`,
-    @tag(007)
-    repeat options1 A,
-    repeat x `line1
-    line2`,
-    MetaDataX @lengthOf(options1) `say ""hi""`,
-}
-
-// trailing space 
-// " ++ [27880; 37322]%N ++ runes_of_ascii "
-root packet rootA {
-    @tag(255)
-    char[10] Foo @lengthOf(metadata) ``,
-    @leftPad('\x00')
-    msg_type {
-        //x
-        // a // b
-        float32 Pad,
-        repeat uint32 Logon,
-    },
-    @leftPad()
-    stringy @calculatedFrom(""" ++ [128512]%N ++ runes_of_ascii """) `" ++ [28040; 24687; 31867; 22411]%N ++ runes_of_ascii "`,
-    @tag(4294967296)
-    @tag(4294967296)
-    @lengthOf(i8i8)
-    BodyLength {
-        zchar[42] u128,
-        crc {
-            char[255] Z9_ @lengthOf(int),
-        },
-    },
-    @tag(10)
-    zchar[3] stringy @calculatedFrom(""\n""),
-    a1 calculatedFrom,
-}
-
-packet u8x {
-    x_y_z @lengthOf(lengthOf) `crlf
-    line`,
-    match uint8x as repeatCount {
-        [""a\""b"", ""// no comment""] : Header,
-        [4294967296, ""a\\""] : roots,
-        // " ++ [128512]%N ++ runes_of_ascii " emoji
-        // @lengthOf(
-        42 : rootA,
-        [1, """", ""`tick`"", ""a	b""] : tag,
-        ""1"" : u8x,
-    },
-    f32a `a\`,
-    @lengthOf(u8x)
-    pack asx,
-    uint64 leftPad,
-    repeat char[0] Pad,
+    @calculatedFrom(""x y"")
+    // @lengthOf(
+    string len @lengthOf(metadata),
 }")).
-Eval vm_compute in ("<<<M1323>>>" ++ check (runes_of_ascii "packet// c
-lengthOf
-{ matchKey `doc` , i8i8
-{ match crc  as zchar
-    {	[ 1, ""abc"" ,	0 ,
-    0123456789,
-65535 ]
-    :chars , ""\n"" : uint8x ""a\""b"":  int ,[
-""`tick`""
-    ,""a	b"" , ""a	b""
-    ,4294967296 , 4294967296	, """" , ""a\""b"" ] :
-string_ ,
-0123456789 :// @lengthOf(
-A
-    ,""packet""
-    // a // b
-    :asx  } ,char[00
-//
-//
-] u8x
-`u8 x,`, u8x { uint32 float
-@calculatedFrom( ""{,}"")
+Eval vm_compute in ("<<<M4153>>>" ++ check (runes_of_ascii "packet string_ {
+    zchar[3] stringy @lengthOf(packetx) `u8 x,`,// `tick` ""quote"" 'q'
+    f64 string_ ``,
+}
+
+MetaData leftPad {
+    char[1] MetaDataX `crlf
+    line`,
+    metadata a1 `tab	here`,
+    T o `line1
+    line2`,// " ++ [128512]%N ++ runes_of_ascii " emoji
+    o trueish,
+}
+
+options {
+}
+
+MetaData T {
+    Foo Logon,
+    Logon lengthOf,
+    char[00] pack,
+    char[7] i8i8 ``,
+}")).
+Eval vm_compute in ("<<<M4587>>>" ++ check (runes_of_ascii "
+
+  MetaData
+u{
+	u128
+
+    tag
+
+`
+`,
+	zchar[
+10]  pack 
+`say ""hi""`
+	, 
+string
+
+metadata
+    `doc`
+	,
+	}	packet	chars {
+	match crc
+	as  trueish  { 
+	// " ++ [27880; 37322]%N ++ runes_of_ascii "
+  10  : 
+roots 
+[ """ ++ [28040; 24687]%N ++ runes_of_ascii """
+
 ,
-//	t
-// " ++ [128512]%N ++ runes_of_ascii " emoji
-char[
-0
+	"""", 4294967296
+,  ""\n"" 
+,007  ,
+
+    ""a\""b""
+	,
+
+"""" ,  // `tick` ""quote"" 'q'
+  42 
+]
+:
+string_ ""{,}"":x_y_z	,  } ,i8i8 
+int ,
+    asx ,}
+        //	t
+")).
+Eval vm_compute in ("<<<M1941>>>" ++ check (runes_of_ascii "MetaData
+    u { }  options {
+// c
+// @lengthOf(
+float = int8 ;rootA =false ; As =	int16 // `tick` ""quote"" 'q'
+repeatCount repeatCount
+    // trailing space 
+    =
+    int16
+; u8x =
+    //	t
+    '\x00' ; } options	{
+    repeatCount
+= 0
+u128
+    //
+    = false ; i64_
 // trailing space 
 // `tick` ""quote"" 'q'
-] zchar
-    ,	}, falsey@calculatedFrom( """ ++ [128512]%N ++ runes_of_ascii """ )
-    ,} // packet A { u8 x, }
-, @calculatedFrom( ""1"" )
-zchar[
-255
-    ]
-// @lengthOf(
-//
-metadata
-@lengthOf(	packetx	) , Header @calculatedFrom(
-""CRC32"" ) ,
-// c
-// trailing space 
-float @lengthOf(crc ) ``, @tag(42 )@lengthOf(
-    A ) @lengthOf( u128) stringy// " ++ [27880; 37322]%N ++ runes_of_ascii "
-`" ++ [233]%N ++ runes_of_ascii "` ,	@leftPad ( '0')
-    char[4294967296  ]
-float , u`" ++ [233]%N ++ runes_of_ascii "` ,@lengthOf(falsey ) // @lengthOf(
-@lengthOf( /// triple
-lengthOf
-) repeat f32 matchKey `line1
-line2`
-    ,
+= '0' ; //	t
 }
-options
-    { lengthOf= string;}packet falsey{
-@tag( 1
-)int16 repeatCount
-@lengthOf( charz
-)
-`a\` // @lengthOf(
-, repeat u64 MetaDataX `say ""hi""` , } options {  x
-    = // packet A { u8 x, }
-""abc"" }
-MetaData BodyLength {zchar[ 4294967296]	zchar ,}")).
-Eval vm_compute in ("<<<M598>>>" ++ check (runes_of_ascii "
-packet o
-    // packet A { u8 x, }
-    { @tag(
-42 )	@tag( 7) @rightPad ( ' ' ) match i8i8 as rootA {// trailing space 
-[	""1""
-,
-1]:  crc , }
-    ,
-    i16
-    u8x/// triple
-@calculatedFrom(
-""\" ++ [233]%N ++ runes_of_ascii """ ), pack @calculatedFrom(
-""a	b"" ),repeat f32
-calculatedFrom ,zchar[ 00 ]  calculatedFrom , u8
-trueish`doc`, zchar[ 0123456789] int @calculatedFrom( ""packet"" )//x
-, } options { packetx =//
-""CRC32"" ;  } root packet matchKey {match Header as T {[ ""abc""
-,
-    """ ++ [233]%N ++ runes_of_ascii "t" ++ [233]%N ++ runes_of_ascii """]  : f32a 00	:calculatedFrom,00
-: _x } ,
-    char[]
-pack`{ , }` ,
-    u32
-BodyLength
-    ,	@leftPad
-( )
-    @lengthOf(
-o )
-    @lengthOf( MetaDataX ) rootA
-    { match int
-as Logon
-    { [ 3
-]:
-    f32a  ,} , zchar //x
-@lengthOf( a1
-)
-, }
-,// packet A { u8 x, }
-@calculatedFrom( ""{,}"" // " ++ [128512]%N ++ runes_of_ascii " emoji
-)
-    repeat BodyLength
-    { match Pad
+")).
+Eval vm_compute in ("<<<M2018>>>" ++ check (runes_of_ascii "MetaData
+    u { }  options {
+// c
 // @lengthOf(
-//x
-as charz {
-""x y"" :lengthOf  ,
-},repeat Foo
-{zchar[0
-    ] Header `" ++ [28040; 24687; 31867; 22411]%N ++ runes_of_ascii "` , } , char[ 7// " ++ [128512]%N ++ runes_of_ascii " emoji
-] packetx `// not a comment` , a1 @calculatedFrom(
-    ""1"" ) ,}
-,
-    @leftPad()
-zchar[ // c
-65535 ] u128 `say ""hi""` , } root// " ++ [128512]%N ++ runes_of_ascii " emoji
-packet int {	@leftPad (	'0' ) repeat char Packet
-, } 	 ")).
-Eval vm_compute in ("<<<M756>>>" ++ check (runes_of_ascii "packet BodyLength{
-//
-// " ++ [27880; 37322]%N ++ runes_of_ascii "
-char[ 1
-    ]
-    packetx ,// " ++ [27880; 37322]%N ++ runes_of_ascii "
-} MetaData	Logon{	msg_type
-    chars`crlf
-line`
-/// triple
-//x
-, u64  msg_type ,	} options
-{ // trailing space 
-A =
+float = int8 ;rootA =false ; As =	int16 // `tick` ""quote"" 'q'
+repeatCount
     // trailing space 
-    007 x
-= // `tick` ""quote"" 'q'
-0 ;i8i8
-= true T =char}packet tag {  int64 Foo@calculatedFrom( ""it's""
-    // packet A { u8 x, }
-    ) ,	f32  Pad , packetx @lengthOf( msg_type
-)
-, @calculatedFrom( ""`tick`"" ) zchar[255
-    ]
-float
-    `" ++ [28040; 24687; 31867; 22411]%N ++ runes_of_ascii "`
-, } packet trueish {  repeat pack// `tick` ""quote"" 'q'
-roots , @leftPad
-    ( '\x00' ) repeat u64
-A , MetaDataX string_
-    `
-`, float
-    @calculatedFrom( ""// no comment"" ) ,@lengthOf(
-i8i8 ) a1
-{
-int64 body@lengthOf(
-leftPad ) ,
-match charz as u128 {1 :MetaDataX	,  }
-    , match
-//
-//	t
-crc as
-i64_{ ""abc""
-: calculatedFrom ,
-3 :
+    =
+    int16
+; u8x =
+    //	t
+    '\x00' ; } options	{
+    repeatCount
+= 0
+u128
     //
-    body,
-    ""\n""// a // b
-: uint8x ,
-[  42, 10 ,
-    255 , ""packet""
-,""" ++ [233]%N ++ runes_of_ascii "t" ++ [233]%N ++ runes_of_ascii """]
-: u8x , } ,
-    string x, } , falsey
-,@calculatedFrom( ""packet"" )  match
-falsey as u8x
-{
-4294967296: Z9_ , """ ++ [233]%N ++ runes_of_ascii "t" ++ [233]%N ++ runes_of_ascii """:
-int
-,
-} , match roots as matchKey  { [
-1]	:
-    trueish },
-} 	 ")).
-Eval vm_compute in ("<<<M4031>>>" ++ check (runes_of_ascii "packet leftPad {
-    char[4294967296] Pad,
+    packet false ; i64_
+// trailing space 
+// `tick` ""quote"" 'q'
+= '0' ; //	t
+}
+")).
+Eval vm_compute in ("<<<M1948>>>" ++ check (runes_of_ascii "MetaData
+    u { }  options {
+// c
+// @lengthOf(
+float = int8 ;rootA =false ; As =	int16 // `tick` ""quote"" 'q'
+repeatCount
+    // trailing space 
+    007
+    int16
+; u8x =
+    //	t
+    '\x00' ; } options	{
+    repeatCount
+= 0
+u128
+    //
+    = false ; i64_
+// trailing space 
+// `tick` ""quote"" 'q'
+= '0' ; //	t
+}
+")).
+Eval vm_compute in ("<<<M2064>>>" ++ check (runes_of_ascii "MetaData
+    u { }  options {
+// c
+// @lengthOf(
+float = int8 ;rootA =false ; As =	int16 // `tick` ""quote"" 'q'
+repeatCount
+    // trailing space 
+    =
+    int16
+; u8x =
+    //	t
+    '\x00' ; } options	{
+    repeatCount
+= 0
+u128
+    //
+   $ = false ; i64_
+// trailing space 
+// `tick` ""quote"" 'q'
+= '0' ; //	t
+}
+")).
+Eval vm_compute in ("<<<M1972>>>" ++ check (runes_of_ascii "MetaData
+    u { }  options {
+// c
+// @lengthOf(
+float = int8 ;rootA =false ; As =	int16 // `tick` ""quote"" 'q'
+repeatCount
+    // trailing space 
+    =
+    int16
+; u8x =
+    //	t
+    ; '\x00' } options	{
+    repeatCount
+= 0
+u128
+    //
+    = false ; i64_
+// trailing space 
+// `tick` ""quote"" 'q'
+= '0' ; //	t
+}
+")).
+Eval vm_compute in ("<<<M1930>>>" ++ check (runes_of_ascii "MetaData
+    u { }  options {
+// c
+// @lengthOf(
+float = int8 ;rootA =false ; As 	int16 // `tick` ""quote"" 'q'
+repeatCount
+    // trailing space 
+    =
+    int16
+; u8x =
+    //	t
+    '\x00' ; } options	{
+    repeatCount
+= 0
+u128
+    //
+    = false ; i64_
+// trailing space 
+// `tick` ""quote"" 'q'
+= '0' ; //	t
+}
+")).
+Eval vm_compute in ("<<<M2030>>>" ++ check (runes_of_ascii "MetaData
+    u { }  options {
+// c
+// @lengthOf(
+float = int8 ;rootA =false ; As =	int16 // `tick` ""quote"" 'q'
+repeatCount
+    // trailing space 
+    =
+    int16
+; u8x =
+    //	t
+    '\x00' ; } options	{
+    repeatCount
+= 0
+u128
+    //
+    = false ; 
+// trailing space 
+// `tick` ""quote"" 'q'
+= '0' ; //	t
+}
+")).
+Eval vm_compute in ("<<<M1995>>>" ++ check (runes_of_ascii "MetaData
+    u { }  options {
+// c
+// @lengthOf(
+float = int8 ;rootA =false ; As =	int16 // `tick` ""quote"" 'q'
+repeatCount
+    // trailing space 
+    =
+    int16
+; u8x =
+    //	t
+    '\x00' ; } options	{
+    
+= 0
+u128
+    //
+    = false ; i64_
+// trailing space 
+// `tick` ""quote"" 'q'
+= '0' ; //	t
+}
+")).
+Eval vm_compute in ("<<<M4280>>>" ++ check (runes_of_ascii "packet x {
+    int8 T,
+}
+
+options {
 }
 
 packet Z9_ {
-    repeat int,
-    i64_ @lengthOf(float),
-    repeat leftPad {
-        string _x,
-        char[65535] x @calculatedFrom(""it's"") `crlf
-                line`,
-    },
-    @calculatedFrom(""" ++ [28040; 24687]%N ++ runes_of_ascii """)
-    i32 tag,
-    string body @lengthOf(body) ``,
-    @tag(4294967296)
-    uint16 Logon @lengthOf(leftPad) ``,
+    @lengthOf(A)
+    As @calculatedFrom(""x y""),
 }
 
-root packet repeatCount {
-}
-
-root packet options1 {
-    @lengthOf(Z9_)
-    @calculatedFrom(""// no comment"")
-    @calculatedFrom(""1"")
-    zchar {
-        u8 repeatCount @calculatedFrom(""it's""),
-        Packet @lengthOf(_x),
-    },
-    @calculatedFrom(""// no comment"")
-    repeat A {
-        int32 crc @calculatedFrom(""// no comment"") `{ , }`,
-        //x
-        repeat u64 packetx `// not a comment`,
-    },
-    i16 packetx @calculatedFrom(""abc"") `" ++ [28040; 24687; 31867; 22411]%N ++ runes_of_ascii "`,
-    // packet A { u8 x, }
-    u16 Foo @calculatedFrom(""CRC32""),//
-}
-
-options {
-    Header = '\x00';// " ++ [27880; 37322]%N ++ runes_of_ascii "
-    MetaDataX = 007;
-    lengthOf = false;
-    As = '\x00'
-}/// triple")).
-Eval vm_compute in ("<<<M131>>>" ++ check (runes_of_ascii "packet u128 {@lengthOf( x_y_z )	@lengthOf( stringy )
-@lengthOf( _x) zchar[
-// c
-// c
-4294967296 ] asx @calculatedFrom(
-    ""\" ++ [233]%N ++ runes_of_ascii """	)
-    `
-` ,char[0 ] matchKey
-, rootA
-    u128
-    ,
-    metadata metadata ,	zchar[	3 ]
-    string_ `" ++ [233]%N ++ runes_of_ascii "`
-,
-// `tick` ""quote"" 'q'
-// " ++ [27880; 37322]%N ++ runes_of_ascii "
-@calculatedFrom(""a	b""
-)
-char roots `" ++ [28040; 24687; 31867; 22411]%N ++ runes_of_ascii "` , repeat zchar[10]
-pack
-    `
-`, @calculatedFrom( ""{,}"" )
-@lengthOf( //	t
-Foo )  packetx {// " ++ [128512]%N ++ runes_of_ascii " emoji
-match i8i8 as Header
-{ 255	: Z9_  """ ++ [233]%N ++ runes_of_ascii "t" ++ [233]%N ++ runes_of_ascii """ :tag
-, [ 7,	1, ""// no comment"", ""// no comment"" , 3
-,
-    """" , // `tick` ""quote"" 'q'
-1 ] :lengthOf 3 :  asx , [ 42	,
-0 , 1 ] :Z9_ , 10 :
-    A}, } , }root packet T {/// triple
-int32 roots `two words`, stringy, @rightPad ( '\x00')float64 len	@lengthOf( o )
-    ,match body // `tick` ""quote"" 'q'
-as	uint8x { 10
-    :
-tag , }
-    ,
-    repeat u8
-    Pad
-    `" ++ [28040; 24687; 31867; 22411]%N ++ runes_of_ascii "`
-    , repeat char[]
-    float // c
-, @calculatedFrom(	""packet"" ) u16 x
-    @lengthOf(
-u8x)
-// c
-// a // b
-, } //x")).
-Eval vm_compute in ("<<<M4026>>>" ++ check (runes_of_ascii "  root
-packet  As	{
-repeat 
-      //	t
-  x
-	msg_type
-
-,}
-
-MetaData
-	crc
-
-{// c
-  u8 x 
-,
-} root packet 
-
-    // " ++ [128512]%N ++ runes_of_ascii " emoji
-	  Logon {	@calculatedFrom(""1""
-    )
-@rightPad (
-    ' ' ) @leftPad ()string
-msg_type @lengthOf(
-
-uint8x
-
-    )  `a\`
-
-    ,	match
-	calculatedFrom as
-
-    i8i8 {
-    [
-""\" ++ [233]%N ++ runes_of_ascii """]
-:  options1  ,	// c
-	1
-
-    :
-
-    asx
-	, 
-[ 42 
-, 42
-//
-	,//	t
-  """ ++ [28040; 24687]%N ++ runes_of_ascii """	// `tick` ""quote"" 'q'
-  ,""""
-,  // " ++ [128512]%N ++ runes_of_ascii " emoji
-  	7
-	] 	 // @lengthOf(
-	:x_y_z 
-, 
-[ // " ++ [27880; 37322]%N ++ runes_of_ascii "
-
-0 	 //x
-
-] :
-
-    // packet A { u8 x, }
-    	asx
-    //
-	7: 
-u8x
-[ 7
-]
-
-:
-u ,
-	} ,
-	} MetaData repeatCount
-	{ float
-    Foo
-
-, As 	 //	t
-    i8i8 ,} packet	tag{
-@leftPad  ( 
-' '
-    )match Z9_
-
-as  msg_type
-{
-        //
-[
-    10 ,  ""a\""b"" ,0
-,
-255
-    ,7,	0123456789 ,
-10
-
-    ]
-    :  Logon	, """ ++ [233]%N ++ runes_of_ascii "t" ++ [233]%N ++ runes_of_ascii """
-
-: 
-a1
-
-    ,
-7 
-
-    // packet A { u8 x, }
-    	/// triple
-    : i64_ , 255 :
-leftPad
-
-    }, }
-")).
-Eval vm_compute in ("<<<M3726>>>" ++ check (runes_of_ascii "MetaData Packet {
-    x_y_z lengthOf `tab	here`,
-    rootA u128 `" ++ [28040; 24687; 31867; 22411]%N ++ runes_of_ascii "`,
-    char[10] u8x `say ""hi""`,
-    zchar[7] i64_,
-}
-
-packet charz {
-    @tag(0)
-    match float as T {
-        //	t
-        ""packet"" : i8i8,
-        ""CRC32"" : string_,
-        65535 : pack,
-        // @lengthOf(
-    },
-    i32 matchKey @calculatedFrom(""a\""b""),
-    @tag(65535)
-    repeat int {
-        match u8x as zchar {
-            ""\" ++ [233]%N ++ runes_of_ascii """ : BodyLength,
-        },
-    },
-    uint16 roots,
-    @rightPad(' ')
-    int8 i64_ @calculatedFrom(""it's""),
-    @tag(255)
-    repeat rootA {
-        repeat string Z9_,
-        lengthOf roots `" ++ [233]%N ++ runes_of_ascii "`,
-        zchar @calculatedFrom(""x y"") `{ , }`,
-    },
-    @tag(0)
-    calculatedFrom Logon,
-}
-
-packet leftPad {
-    uint64 A,
-    match pack as u {
-        ""`tick`"" : f32a,
-        ""1"" : i8i8,
-        ""\" ++ [233]%N ++ runes_of_ascii """ : A,
-    },
-}")).
-Eval vm_compute in ("<<<M571>>>" ++ check (runes_of_ascii "// packet A { u8 x, }
-packet packetx { @tag( 7 ) f64 o @calculatedFrom(
-""" ++ [233]%N ++ runes_of_ascii "t" ++ [233]%N ++ runes_of_ascii """ ) , repeat MetaDataX {i8 Logon
-    ,}	, char[ 7] string_  , repeat	o	{	u16	Foo ,repeat i16
-packetx
-    ,	match matchKey as As { ""packet""
-: roots , 42
-:
-falsey 0123456789
-    // c
-    : matchKey , ""\" ++ [233]%N ++ runes_of_ascii """ :
-    zchar """ ++ [233]%N ++ runes_of_ascii "t" ++ [233]%N ++ runes_of_ascii """ : stringy, [ 65535]:rootA ,} ,repeat char[]  lengthOf ,} ,match
-    x // c
-as
-//	t
-//
-falsey
-    { ""1"" :
-    Packet , 1 : u ,
-    0 : charz  [ ""1"" ] : pack ,""a\""b"" : options1 ,} ,
-@tag(
-0)
-// trailing space 
-// " ++ [128512]%N ++ runes_of_ascii " emoji
-repeat int16
-matchKey , uint16 rootA`` , // c
-match string_
-as
-A {[ 3  , """ ++ [28040; 24687]%N ++ runes_of_ascii """ ]:zchar
-,
-    } , } packet f32a { } MetaData falsey { char[] Header ,metadata
-    Pad `two words` , zchar[ 10 ] calculatedFrom ,char[] lengthOf
-,
-float32 u
-`line1
-line2`  ,}")).
-Eval vm_compute in ("<<<M1256>>>" ++ check (runes_of_ascii "MetaData stringy {string
-zchar, zchar
-uint8x  , string BodyLength `{ , }`
-// @lengthOf(
-// " ++ [128512]%N ++ runes_of_ascii " emoji
-,
-    zchar[  1 ]
-crc `doc` ,	zchar[ 7
-] T//	t
-`two words`, char[] A `a\`,
-} packet
-    string_{
-repeat len `a\` ,
-zchar
-    `" ++ [233]%N ++ runes_of_ascii "` ,	}
-    MetaData
-x_y_z { stringy
-    metadata
-    , char[]Z9_
-`it's` ,}
-packet // a // b
-falsey {
-    @calculatedFrom(
-// " ++ [27880; 37322]%N ++ runes_of_ascii "
-// @lengthOf(
-""" ++ [233]%N ++ runes_of_ascii "t" ++ [233]%N ++ runes_of_ascii """
-)match Pad as u
-{0123456789
-    //	t
-    :	trueish,	} , // " ++ [128512]%N ++ runes_of_ascii " emoji
-repeat
-    char[] calculatedFrom `u8 x,`, f64
-    A ,
-    body @calculatedFrom( ""`tick`"" // `tick` ""quote"" 'q'
-) , }root
-packet roots  { zchar[ 10 ]roots
-`crlf
-line`	,
-Z9_
-{ zchar[ 7 ] leftPad`" ++ [233]%N ++ runes_of_ascii "` ,} ,
-int64 calculatedFrom `a\` , crc
-    u128 ,
-char[
-1	] A@calculatedFrom( ""{,}"") `doc`  , }
-")).
-Eval vm_compute in ("<<<M36>>>" ++ check (runes_of_ascii "packet  int {@tag( 00
-) float	,
-@leftPad( '0'
-)@calculatedFrom(""" ++ [28040; 24687]%N ++ runes_of_ascii """ ) match crc
-as body
-    {""`tick`"" : msg_type} // @lengthOf(
-,
-Logon
-,repeat u8x, // " ++ [27880; 37322]%N ++ runes_of_ascii "
-} packet MetaDataX { }packet string_ {
-repeat //
-Header Header
-, // trailing space 
-} packet
-A{ @rightPad // " ++ [27880; 37322]%N ++ runes_of_ascii "
-( '\x00' // trailing space 
-) @leftPad (
-    ' ' ) repeat uint64
-    matchKey // trailing space 
-, f32 len // @lengthOf(
-, // trailing space 
-repeat
-tag
-{i64
-// @lengthOf(
-// " ++ [27880; 37322]%N ++ runes_of_ascii "
-roots
-    // " ++ [27880; 37322]%N ++ runes_of_ascii "
-    @lengthOf( metadata ), }
-, @tag(
-65535
-    ) char[ //
-00 ]
-// a // b
-/// triple
-a1
-    ,repeat i16 i8i8 ,char[
-3 ]int @calculatedFrom(
-""a\\"" ) , // a // b
-@calculatedFrom( """ ++ [28040; 24687]%N ++ runes_of_ascii """) Pad// " ++ [128512]%N ++ runes_of_ascii " emoji
-@lengthOf(
-stringy ) ,/// triple
-}
-")).
-Eval vm_compute in ("<<<M655>>>" ++ check (runes_of_ascii "  packet i8i8 { } options { options1//	t
-=true ; // " ++ [27880; 37322]%N ++ runes_of_ascii "
-}	packet pack{
-    //	t
-    lengthOf{ char[	10
-]	len@calculatedFrom(
-""\" ++ [233]%N ++ runes_of_ascii """
-)
-// " ++ [27880; 37322]%N ++ runes_of_ascii "
-// " ++ [27880; 37322]%N ++ runes_of_ascii "
-`a\` , }
-,
-    } root packet repeatCount{u128 len `line1
-line2` ,
-@calculatedFrom( ""// no comment"" // `tick` ""quote"" 'q'
-) repeat char[]zchar`// not a comment` ,	a1 , repeat zchar[  1
-]	u `crlf
-line` , } packet
-lengthOf{@calculatedFrom(
-    //
-    ""packet"" ) // a // b
-float64
-trueish
-@lengthOf( Z9_
-) , @leftPad
-    ( )
-    match options1 as A
+MetaData Logon {
     //x
-    {""it's"":len
-    ,
-    ["""" ] :T // " ++ [128512]%N ++ runes_of_ascii " emoji
-,	[
-    //
-    00
-// c
-// `tick` ""quote"" 'q'
-] : calculatedFrom, 1:MetaDataX	, 4294967296 :
-    u , } // a // b
-,}
-//
-")).
-Eval vm_compute in ("<<<M1278>>>" ++ check (runes_of_ascii "//x
-packet	_x { repeat
-    charz { repeat asx,//x
-string metadata ,//x
-uint64	a1 @calculatedFrom(	""it's"") `a\`
-    , }
-,
-    @rightPad//
-() msg_type len
-``,MetaDataX asx // " ++ [128512]%N ++ runes_of_ascii " emoji
-,@rightPad
-(
-    '\x00' )zchar[ 3] int,
-}packet Packet
-    { @leftPad(
-    )
-string_{ repeat
-    calculatedFrom// a // b
-`it's` , }
-    // " ++ [128512]%N ++ runes_of_ascii " emoji
-    , @calculatedFrom(""a	b""
-    ) @tag( 00 )@rightPad(
-' ')
-u64 stringy // " ++ [128512]%N ++ runes_of_ascii " emoji
-@calculatedFrom( ""a	b"" // @lengthOf(
-)
-, @leftPad
-    (
-'\x00' ) options1 `" ++ [233]%N ++ runes_of_ascii "`
-    , @rightPad ( ) repeat char[ 007
-]Foo `line1
-line2`
-,
-} options
-{len
-    = '\x00' ;
-    roots  =
-""{,}""packetx =i64 ;
-    }
-")).
-Eval vm_compute in ("<<<M4263>>>" ++ check (runes_of_ascii "packet As {
-    char[42] chars @calculatedFrom(""a\""b"") `it's`,
-    f32a falsey `// not a comment`,// " ++ [128512]%N ++ runes_of_ascii " emoji
-    string trueish `" ++ [28040; 24687; 31867; 22411]%N ++ runes_of_ascii "`,
-    @lengthOf(metadata)
-    @tag(65535)
-    @calculatedFrom(""`tick`"")
-    repeat Logon {
-        x_y_z @lengthOf(lengthOf),
-        uint32 u,
-        i64_ @calculatedFrom(""CRC32"") `a\`,
-        asx @calculatedFrom("""") `u8 x,`,
-    },
-    u16 _x ``,
-    repeat string_,
-    options1 f32a,
-    @calculatedFrom(""\n"")
-    Packet @lengthOf(zchar),
-}// `tick` ""quote"" 'q'
-
-options {
-}
-
-packet a1 {
-    @tag(0123456789)
-    u8 uint8x `{ , }`,
-    u32 x_y_z `say ""hi""`,
+    //x
+    pack trueish,/// triple
+    rootA charz,
+    leftPad leftPad,
+    char[] Logon,
+    // a // b
+    // " ++ [27880; 37322]%N ++ runes_of_ascii "
+    f64 matchKey,
+    falsey falsey `two words`,
 }")).
-Eval vm_compute in ("<<<M4301>>>" ++ check (runes_of_ascii "options {
-    o = '0';
+Eval vm_compute in ("<<<M4349>>>" ++ check (runes_of_ascii "  packet
+
+    trueish  {  body Logon ,
+} packet len	{
+	@leftPad(
+    '0' // packet A { u8 x, }
+)
+
+@rightPad
+
+    () repeat  calculatedFrom `u8 x,` ,repeatCount
+{
+    repeat
+Logon	tag 
+`u8 x,`
+,	} 	 // " ++ [128512]%N ++ runes_of_ascii " emoji
+,
+repeat char[	65535 ]Header  `two words` ,float32 Pad  ,
+    } ")).
+Eval vm_compute in ("<<<M3309>>>" ++ check (runes_of_ascii "// top
+root // c0
+packet // c1a
+  // c1b
+matchKey // c2
+{
+    // c3
+zchar[ 3 // c5
+]
+    // c6
+pack @calculatedFrom( // c8
+""a	b"" // c9a
+  // c9b
+) // c10
+`doc` // c11
+, } options
+    // c14
+{ } // c16
+MetaData A { // c19a
+  // c19b
+int8 // c20
+msg_type ,
+    // c22
+} ")).
+Eval vm_compute in ("<<<M1603>>>" ++ check (runes_of_ascii "packet
+//	t
+// trailing space 
+_x {
+// packet A { u8 x, }
+// c
+char[
+3
+    ] u8x @lengthOf(
+u8x ) , @calculatedFrom(""" ++ [128512]%N ++ runes_of_ascii """ // @lengthOf(
+)
+i16	Foo
+@lengthOf(	string_
+    )`doc`	, repeat	i64 metadata metadata , @lengthOf( string_
+) i8 // c
+u  `line1
+line2`	,
+}
+")).
+Eval vm_compute in ("<<<M1563>>>" ++ check (runes_of_ascii "packet
+//	t
+// trailing space 
+_x {
+// packet A { u8 x, }
+// c
+char[
+3
+    ] u8x @lengthOf(
+u8x ) , @calculatedFrom(""" ++ [128512]%N ++ runes_of_ascii """ // @lengthOf(
+)
+i16	Foo Foo
+@lengthOf(	string_
+    )`doc`	, repeat	i64 metadata , @lengthOf( string_
+) i8 // c
+u  `line1
+line2`	,
+}
+")).
+Eval vm_compute in ("<<<M1661>>>" ++ check (runes_of_ascii "packet
+//	t
+// trailing space 
+_x {
+// packet A { u8 x, }
+// c
+char[
+3
+    ] u8x @lengthOf(
+` u8x ) , @calculatedFrom(""" ++ [128512]%N ++ runes_of_ascii """ // @lengthOf(
+)
+i16	Foo
+@lengthOf(	string_
+    )`doc`	, repeat	i64 metadata , @lengthOf( string_
+) i8 // c
+u  `line1
+line2`	,
+}
+")).
+Eval vm_compute in ("<<<M1529>>>" ++ check (runes_of_ascii "packet
+//	t
+// trailing space 
+_x {
+// packet A { u8 x, }
+// c
+char[
+3
+    ] u8x @lengthOf(
+) u8x , @calculatedFrom(""" ++ [128512]%N ++ runes_of_ascii """ // @lengthOf(
+)
+i16	Foo
+@lengthOf(	string_
+    )`doc`	, repeat	i64 metadata , @lengthOf( string_
+) i8 // c
+u  `line1
+line2`	,
+}
+")).
+Eval vm_compute in ("<<<M1497>>>" ++ check (runes_of_ascii "packet
+//	t
+// trailing space 
+_x 
+// packet A { u8 x, }
+// c
+char[
+3
+    ] u8x @lengthOf(
+u8x ) , @calculatedFrom(""" ++ [128512]%N ++ runes_of_ascii """ // @lengthOf(
+)
+i16	Foo
+@lengthOf(	string_
+    )`doc`	, repeat	i64 metadata , @lengthOf( string_
+) i8 // c
+u  `line1
+line2`	,
+}
+")).
+Eval vm_compute in ("<<<M4044>>>" ++ check (runes_of_ascii "/// triple
+root packet Logon {
+    @calculatedFrom(""CRC32"")
+    uint8x {
+        roots pack `line1
+        line2`,
+    },
+    string u,
 }
 
-packet u128 {
-    @calculatedFrom(""{,}"")
-    uint16 pack @calculatedFrom(""" ++ [233]%N ++ runes_of_ascii "t" ++ [233]%N ++ runes_of_ascii """),
+packet body {
+    uint64 Logon,
+}
+
+root packet lengthOf {
 }
 
 packet A {
+    u32 pack @calculatedFrom(""" ++ [128512]%N ++ runes_of_ascii """),
+}")).
+Eval vm_compute in ("<<<M1327>>>" ++ check (runes_of_ascii "
+packet
     //x
-    u8 chars @lengthOf(BodyLength),
-    lengthOf @calculatedFrom(""// no comment""),
-    x_y_z {
-        string Pad `" ++ [233]%N ++ runes_of_ascii "`,
-        // " ++ [27880; 37322]%N ++ runes_of_ascii "
-        len {
-            zchar[0123456789] T,
-            match u128 as metadata {
-                3 : u128,
-                ""\n"" : x,
-                [""" ++ [233]%N ++ runes_of_ascii "t" ++ [233]%N ++ runes_of_ascii """, ""packet""] : tag,
-                10 : options1,
-                ""abc"" : u,
-            },
-        },
-        tag @calculatedFrom("""") `it's`,
-    },
-}// " ++ [27880; 37322]%N)).
-Eval vm_compute in ("<<<M1045>>>" ++ check (runes_of_ascii "MetaData pack
-{} // trailing space 
-MetaData
-    u { zchar[
-    7 ] lengthOf `say ""hi""`
-    , }packet // trailing space 
-metadata {
-    @leftPad ()
-    stringy chars ,
-    repeat
-    int {
-uint8  A , zchar[ 4294967296]Packet @lengthOf( x
-)`
-`
-    ,
-repeat
-    crc zchar , }
-// " ++ [128512]%N ++ runes_of_ascii " emoji
-//x
-, repeat options1 { u16 u
-, string_ { string_
-    MetaDataX,repeat char[	0123456789
-]  uint8x ,
-repeat uint32 T ,
-// packet A { u8 x, }
-//x
-}, uint16 packetx , }
-// packet A { u8 x, }
-// `tick` ""quote"" 'q'
-, @leftPad (
-' ' ) rootA `crlf
-line` ,}
-// " ++ [27880; 37322]%N ++ runes_of_ascii "
-")).
-Eval vm_compute in ("<<<M145>>>" ++ check (runes_of_ascii "root //	t
-packet
-BodyLength { zchar[ 10
-]
-u128
-    ,
-uint8 zchar ``
-    , repeat falsey ,float64 chars@calculatedFrom( """ ++ [128512]%N ++ runes_of_ascii """
-) , char[]matchKey, repeat //x
-uint16 matchKey ,
-@calculatedFrom( ""CRC32"" ) char[ 3 ] u `" ++ [28040; 24687; 31867; 22411]%N ++ runes_of_ascii "` , @leftPad ( '0'
-    //	t
-    ) u64  charz @calculatedFrom(""" ++ [128512]%N ++ runes_of_ascii """), }
-root packet chars //
-{} MetaData Z9_{ zchar[ 255 ] _x,int32 f32a , int8
-asx `` ,
-o
-packetx // `tick` ""quote"" 'q'
-, }
-    options
-// trailing space 
-// c
-{	A
-=
-4294967296
-//
-// packet A { u8 x, }
-;
-Foo = ""x y"" ;Foo =  ' ' } //	t")).
-Eval vm_compute in ("<<<M4119>>>" ++ check (runes_of_ascii "  packet x {
-
-repeat string_	{ repeat
-	asx Foo
-	    /// triple
-	,
-int16 i8i8 ,char[] matchKey,
-	// @lengthOf(
-	  // trailing space 
-    match 
-calculatedFrom as // a // b
-	roots  {
-	3
-	:
-	x_y_z ,
-    }  ,
-
-}
+    leftPad {
+    }options
+{ Foo
+= ""1""zchar
+    = 65535 uint8x  = zchar[ 10
+    ] ;
+} MetaData
+    u128 { f32a x
+, i16 u8x
+    `two words` , BodyLength metadata `// not a comment` // a // b
 ,
-@lengthOf( 
-x)  repeat o`say ""hi""` , 	 //	t
-  	char[]string_
-`" ++ [28040; 24687; 31867; 22411]%N ++ runes_of_ascii "`	,@lengthOf(f32a
-    )
-
-    match Pad
-	as A 	 //	t
-      {""a	b"":  u128
-    ,
-[ ""\" ++ [233]%N ++ runes_of_ascii """ 
-, 
-65535
-,
-    255
-,
-	""CRC32""
-
-    ,1 
-] :
-	i8i8
-0123456789 :
-	falsey//	t
-
-	,
-}
-    , }
-
-packet
-    zchar
-
+    } options {As= '\x00'
+;}")).
+Eval vm_compute in ("<<<M504>>>" ++ check (runes_of_ascii "
+packet Z9_ { } // " ++ [27880; 37322]%N ++ runes_of_ascii "
+MetaData packetx
+{ u8 x_y_z
+    `it's` , } packet options1
     {
-
-}
-
-")).
-Eval vm_compute in ("<<<M3636>>>" ++ check (runes_of_ascii "  options  {	LittleEndian =
-	false	; ArrayPrefixLenType = u8	;
-FixedStringPadChar= 
-'0';
-	} packet Order{
-InNote94
-{f32 f1 ,
-
-    f64
-	Side2, repeat
-
-    InTail47
-    {char[]	seqNo
+uint16 rootA
+    `" ++ [28040; 24687; 31867; 22411]%N ++ runes_of_ascii "`
+//x
+// `tick` ""quote"" 'q'
+, // " ++ [128512]%N ++ runes_of_ascii " emoji
+repeat string stringy`" ++ [233]%N ++ runes_of_ascii "` ,
+    char[] // @lengthOf(
+repeatCount `" ++ [28040; 24687; 31867; 22411]%N ++ runes_of_ascii "`
 ,
+    }")).
+Eval vm_compute in ("<<<M3597>>>" ++ check (runes_of_ascii "options
+    {  FixedStringPadChar=	'0'
+    ; 
+}packet
+Q {
 
-char[]
-Tail,char[]  lastPx,  }
-    ,} , 
 zchar[
-7
-]
-f1  ,u8
-    Side2
-    ,	}
-	root 
-packet
-	Reject{ repeat char[ 4
-]
-Flags ,	InPrice63{ InSeqno41
+	4
+] z , @rightPad
+( '\x00'  ) char[3 ] 
+n , char[ 5
+] d
 
-{ 
-repeat
-	i8
-
-OrderId,repeat
-	i32
-
-clOrdID ,
-
-char[
-9]
-tag7
-
-    ,	char[]
-
-    lastPx,}
-
+    ,  }root 
+packet R {
+    Q
 ,
-Order
-,
-	uint8
-	Side2 
-,}
-    ,  } ")).
-Eval vm_compute in ("<<<M628>>>" ++ check (runes_of_ascii "  root packet tag {
-@lengthOf( uint8x )@calculatedFrom(""1"" ) options1	,
-    } MetaData
-    Z9_ {string options1 `crlf
-line` //	t
-,charz string_ ,	} root packet float {@calculatedFrom( ""packet"" )chars{ //x
-repeat chars{
-i8 matchKey `a\` ,
-} ,	}//	t
-, i32 len
-    @lengthOf( u8x )
-// trailing space 
-// " ++ [128512]%N ++ runes_of_ascii " emoji
-, @lengthOf(repeatCount )
-@tag(
-// @lengthOf(
-//	t
-0123456789 )@tag( 007
-) uint64
-    //	t
-    o @calculatedFrom( """ ++ [28040; 24687]%N ++ runes_of_ascii """// a // b
-) ,
-    }
-")).
-Eval vm_compute in ("<<<M3731>>>" ++ check (runes_of_ascii "// packet A { u8 x, }
-options {
-}
+	zchar[ 8
+    ] 
+top
+, repeat zchar[
+2
 
-options {
-    matchKey = 00
-    metadata = float64
-    u8x = 42
-}
-
-packet uint8x {
-    @lengthOf(matchKey)
-    float32 options1,
-    @lengthOf(packetx)
-    repeat zchar[7] As,
-    @rightPad()
-    // `tick` ""quote"" 'q'
-    uint64 repeatCount @lengthOf(leftPad),
-    @lengthOf(As)
-    @leftPad('\x00')
-    // @lengthOf(
-    Header options1,
-    @lengthOf(packetx)
-    repeat zchar[255] zchar `it's`,
-}")).
-Eval vm_compute in ("<<<M4052>>>" ++ check (runes_of_ascii "root packet string_ {
-    @tag(65535)
-    u8 u8x @calculatedFrom(""it's""),
-    zchar[10] pack,
-    string f32a,
-    Pad x `say ""hi""`,
-    @calculatedFrom(""`tick`"")
-    @rightPad(' ')
-    @calculatedFrom(""" ++ [128512]%N ++ runes_of_ascii """)
-    match tag as u128 {
-        [
-            255, 4294967296, 65535, ""packet"", ""// no comment"",
-            ""\n"", """", """ ++ [28040; 24687]%N ++ runes_of_ascii """
-        ] : falsey,
-        ""CRC32"" : uint8x,
-        [007, 3, """ ++ [28040; 24687]%N ++ runes_of_ascii """] : As,
-    },
-}")).
-Eval vm_compute in ("<<<M328>>>" ++ check (runes_of_ascii "packet string_ { @lengthOf( int) BodyLength u8x,i64_ `tab	here`
-// " ++ [128512]%N ++ runes_of_ascii " emoji
-// @lengthOf(
-,char[  3 ] /// triple
-string_  ,repeat leftPad `" ++ [28040; 24687; 31867; 22411]%N ++ runes_of_ascii "`  ,
-repeat int32
-/// triple
-// `tick` ""quote"" 'q'
-BodyLength`u8 x,`, // `tick` ""quote"" 'q'
-@tag( 4294967296
-) BodyLength	`crlf
-line`
-    ,  msg_type Packet `" ++ [233]%N ++ runes_of_ascii "`
-    , float32 string_ // trailing space 
-@calculatedFrom(""""  )
-, asx int
-    `it's` , }
-")).
-Eval vm_compute in ("<<<M1089>>>" ++ check (runes_of_ascii "packet	u8x /// triple
-{ @calculatedFrom( ""\" ++ [233]%N ++ runes_of_ascii """ ) zchar[
-255 ]
-A /// triple
-@calculatedFrom( ""a	b"" )
-    ,string MetaDataX @lengthOf( Pad  ) , f32a @calculatedFrom(
-""a\""b""
-    ) ,  zchar[
-4294967296 ] tag @calculatedFrom( """ ++ [28040; 24687]%N ++ runes_of_ascii """ // `tick` ""quote"" 'q'
-)
-,@tag( 0123456789 )
-    @lengthOf(  Header)int64 A `` ,
-char[]
-/// triple
-// packet A { u8 x, }
-x_y_z ,} packet	Logon {	}
-")).
-Eval vm_compute in ("<<<M4451>>>" ++ check (runes_of_ascii "
-
-  MetaData
-
-    u {
-}options{
-
-    // c
-	// @lengthOf(
-
-  float
-
-= 
-int8
-	;
-    rootA
-= false ;
-	As=
-    int16// `tick` ""quote"" 'q'
-repeatCount 
-
-// trailing space 
-	= 
-int16
-;
-u8x
-
-=
-    //	t
-	string
-;
-}  options { repeatCount = 0  u128
-
-//
-	= 
-false
-
-    ;
-    i64_
-        // trailing space 
-  // `tick` ""quote"" 'q'
-      = '0'	; //	t
-	  } ")).
-Eval vm_compute in ("<<<M199>>>" ++ check (runes_of_ascii "
-root packet
-    tag { f64
-len ,
-char[
-    4294967296 ] A@calculatedFrom( """"  )`it's`, @tag( 65535
-    )
-match charz// a // b
-as tag	{
-    [ ""// no comment"" , """ ++ [128512]%N ++ runes_of_ascii """ ]:
-zchar	,
-    ""\n"":falsey  , },} packet float {f32a { repeat  packetx{
-    //x
-    char[ 255 ] int `it's`  ,} , uint32 x_y_z @lengthOf( pack ) // " ++ [27880; 37322]%N ++ runes_of_ascii "
-,}, } // `tick` ""quote"" 'q'")).
-Eval vm_compute in ("<<<M829>>>" ++ check (runes_of_ascii "options {	msg_type = 007 ; //
-u8x =""`tick`""}// @lengthOf(
-packet body { match o as
-    /// triple
-    options1
-    {
-//
-//x
-""{,}"" :// trailing space 
-x_y_z 7
-:
-Foo,4294967296
-: len
-, ""// no comment""
-: i64_,	} , @lengthOf(
-matchKey
-)repeat
-u32 x_y_z `say ""hi""` , } MetaData a1 {// a // b
-options1 options1	`doc` , }
-// " ++ [128512]%N ++ runes_of_ascii " emoji
-")).
-Eval vm_compute in ("<<<M1971>>>" ++ check (runes_of_ascii "MetaData
-    u { }  options {
-// c
-// @lengthOf(
-float = int8 ;rootA =false ; As =	int16 // `tick` ""quote"" 'q'
-repeatCount
-    // trailing space 
-    =
-    int16
-; u8x =
-    //	t
-    '\x00' '\x00' ; } options	{
-    repeatCount
-= 0
-u128
-    //
-    = false ; i64_
-// trailing space 
-// `tick` ""quote"" 'q'
-= '0' ; //	t
-}
-")).
-Eval vm_compute in ("<<<M2041>>>" ++ check (runes_of_ascii "MetaData
-    u { }  options {
-// c
-// @lengthOf(
-float = int8 ;rootA =false ; As =	int16 // `tick` ""quote"" 'q'
-repeatCount
-    // trailing space 
-    =
-    int16
-; u8x =
-    //	t
-    '\x00' ; } options	{
-    repeatCount
-= 0
-u128
-    //
-    = false ; i64_
-// trailing space 
-// `tick` ""quote"" 'q'
-= '0' '0' ; //	t
-}
-")).
-Eval vm_compute in ("<<<M2036>>>" ++ check (runes_of_ascii "MetaData
-    u { }  options {
-// c
-// @lengthOf(
-float = int8 ;rootA =false ; As =	int16 // `tick` ""quote"" 'q'
-repeatCount
-    // trailing space 
-    =
-    int16
-; u8x =
-    //	t
-    '\x00' ; } options	{
-    repeatCount
-= 0
-u128
-    //
-    = false ; i64_
-// trailing space 
-// `tick` ""quote"" 'q'
-= = '0' ; //	t
-}
-")).
-Eval vm_compute in ("<<<M1872>>>" ++ check (runes_of_ascii "MetaData
-    u { options  } {
-// c
-// @lengthOf(
-float = int8 ;rootA =false ; As =	int16 // `tick` ""quote"" 'q'
-repeatCount
-    // trailing space 
-    =
-    int16
-; u8x =
-    //	t
-    '\x00' ; } options	{
-    repeatCount
-= 0
-u128
-    //
-    = false ; i64_
-// trailing space 
-// `tick` ""quote"" 'q'
-= '0' ; //	t
-}
-")).
-Eval vm_compute in ("<<<M2022>>>" ++ check (runes_of_ascii "MetaData
-    u { }  options {
-// c
-// @lengthOf(
-float = int8 ;rootA =false ; As =	int16 // `tick` ""quote"" 'q'
-repeatCount
-    // trailing space 
-    =
-    int16
-; u8x =
-    //	t
-    '\x00' ; } options	{
-    repeatCount
-= 0
-u128
-    //
-    = ; false i64_
-// trailing space 
-// `tick` ""quote"" 'q'
-= '0' ; //	t
-}
-")).
-Eval vm_compute in ("<<<M2045>>>" ++ check (runes_of_ascii "MetaData
-    u { }  options {
-// c
-// @lengthOf(
-float = int8 ;rootA =false ; As =	int16 // `tick` ""quote"" 'q'
-repeatCount
-    // trailing space 
-    =
-    int16
-; u8x =
-    //	t
-    '\x00' ; } options	{
-    repeatCount
-= 0
-u128
-    //
-    = false ; i64_
-// trailing space 
-// `tick` ""quote"" 'q'
-= '0'  //	t
-}
-")).
-Eval vm_compute in ("<<<M1875>>>" ++ check (runes_of_ascii "MetaData
-    u { }   {
-// c
-// @lengthOf(
-float = int8 ;rootA =false ; As =	int16 // `tick` ""quote"" 'q'
-repeatCount
-    // trailing space 
-    =
-    int16
-; u8x =
-    //	t
-    '\x00' ; } options	{
-    repeatCount
-= 0
-u128
-    //
-    = false ; i64_
-// trailing space 
-// `tick` ""quote"" 'q'
-= '0' ; //	t
-}
-")).
-Eval vm_compute in ("<<<M1200>>>" ++ check (runes_of_ascii "root packet msg_type{
-repeat
-char[ 7 ]
-    o  `doc`,
-    @calculatedFrom( // packet A { u8 x, }
-""x y""
-    )repeat packetx tag ,
-char[]A
-    `doc`,
-    repeat
-// " ++ [128512]%N ++ runes_of_ascii " emoji
-// trailing space 
-BodyLength {
-//
-//
-int8
-As , i16 stringy , x_y_z {
-zchar[ 65535 ] matchKey
-@lengthOf( zchar ) ,}
-, }, } //")).
-Eval vm_compute in ("<<<M3600>>>" ++ check (runes_of_ascii "  packet
-
-    MDSnapshotZZ
-
-{
-
-u8  a
-	,
-
-}
-	packet OrderACK
-    {
-u16 b	, 
-} 
-packet
-	HTTPServerInfo	{
-
-    string
-s ,
+    ] zs,
 
     }
 
-root packet FIXMsg{
-u8 KType,  MDSnapshotZZ ,
-
-    repeat OrderACK,
-
-    match KType
-	as	Body{  1 :
-HTTPServerInfo
-
-,
-	2 :
-    OrderACK  ,}
-    ,}
-
 ")).
-Eval vm_compute in ("<<<M3808>>>" ++ check (runes_of_ascii "// top
-options {
-    // c1a
-    // c1b
-    FixedStringPadChar = '0';// c5
-}// c6
+Eval vm_compute in ("<<<M4464>>>" ++ check (runes_of_ascii "options {
+}// a // b
 
-packet Q {
-    // c9
-    zchar[4] z,
-    @rightPad('\x00')
-    // c18
-    char[3] n,
-    char[5] d,
+packet BodyLength {
+    zchar[0123456789] packetx `doc`,
+    repeat msg_type `// not a comment`,
+    zchar[00] len,
+    chars @lengthOf(chars) `a\`,
 }
 
-root packet R {
-    // c33
-    Q,// c35
-    zchar[8] top,
-    repeat zchar[2] zs,// c46
+MetaData _x {
+    asx MetaDataX `{ , }`,
 }")).
-Eval vm_compute in ("<<<M25>>>" ++ check (runes_of_ascii "
-root packet  calculatedFrom { repeat Header
-, } MetaData Header{ zchar[// packet A { u8 x, }
-10
-]	As
-    ,// trailing space 
-string
-chars, crc Logon `u8 x,`  , Z9_ Logon ,	}packet trueish
-    {}
-    MetaData
-A { }  options { options1
-=
-' '
-    //
-    ; //	t
-}
-")).
-Eval vm_compute in ("<<<M1583>>>" ++ check (runes_of_ascii "packet
-//	t
-// trailing space 
-_x {
-// packet A { u8 x, }
-// c
-char[
-3
-    ] u8x @lengthOf(
-u8x ) , @calculatedFrom(""" ++ [128512]%N ++ runes_of_ascii """ // @lengthOf(
-)
-i16	Foo
-@lengthOf(	string_
-    )`doc` `doc`	, repeat	i64 metadata , @lengthOf( string_
-) i8 // c
-u  `line1
-line2`	,
-}
-")).
-Eval vm_compute in ("<<<M1560>>>" ++ check (runes_of_ascii "packet
-//	t
-// trailing space 
-_x {
-// packet A { u8 x, }
-// c
-char[
-3
-    ] u8x @lengthOf(
-u8x ) , @calculatedFrom(""" ++ [128512]%N ++ runes_of_ascii """ // @lengthOf(
-)
-false	Foo
-@lengthOf(	string_
-    )`doc`	, repeat	i64 metadata , @lengthOf( string_
-) i8 // c
-u  `line1
-line2`	,
-}
-")).
-Eval vm_compute in ("<<<M811>>>" ++ check (runes_of_ascii "packet trueish{ body Logon , }packet  len
-{ @leftPad ( '0' // packet A { u8 x, }
-) @rightPad ()repeat calculatedFrom`u8 x,`
-    ,repeatCount {repeat
-    Logon tag
-    `u8 x,`
-,
-} // " ++ [128512]%N ++ runes_of_ascii " emoji
-, repeat  char[ 65535	] Header`two words` , float32 Pad, }
-")).
-Eval vm_compute in ("<<<M1624>>>" ++ check (runes_of_ascii "packet
-//	t
-// trailing space 
-_x {
-// packet A { u8 x, }
-// c
-char[
-3
-    ] u8x @lengthOf(
-u8x ) , @calculatedFrom(""" ++ [128512]%N ++ runes_of_ascii """ // @lengthOf(
-)
-i16	Foo
-@lengthOf(	string_
-    )`doc`	, repeat	i64 metadata , @lengthOf( string_
-i8 ) // c
-u  `line1
-line2`	,
-}
-")).
-Eval vm_compute in ("<<<M2029>>>" ++ check (runes_of_ascii "MetaData
-    u { }  options {
-// c
-// @lengthOf(
-float = int8 ;rootA =false ; As =	int16 // `tick` ""quote"" 'q'
-repeatCount
-    // trailing space 
-    =
-    int16
-; u8x =
-    //	t
-    '\x00' ; } options	{
-    repeatCount
-= 0
-u128
-    //
-    = false")).
-Eval vm_compute in ("<<<M850>>>" ++ check (runes_of_ascii "
-MetaData Header { } root// " ++ [128512]%N ++ runes_of_ascii " emoji
-packet i8i8{ @rightPad // trailing space 
-(
-'0' )	u16
-u8x @lengthOf( Header )
-`u8 x,`,
-}
-    MetaData
-u128
-{  zchar[ 00 ]falsey, body repeatCount , len
-    repeatCount
-    ,
-u8 chars  `line1
-line2`
-    , }")).
-Eval vm_compute in ("<<<M590>>>" ++ check (runes_of_ascii "MetaData
-As  {BodyLength roots	, uint8x
-    uint8x
-    , } packet pack
-    /// triple
-    { lengthOf `crlf
-line` , char
-i8i8 ,
-@tag( 4294967296) zchar[ 1 ] Header `say ""hi""` , @tag(4294967296 )
-    string chars,	}
-// trailing space 
-")).
-Eval vm_compute in ("<<<M3656>>>" ++ check (runes_of_ascii "packet Sub {
-    u8 a,
-    @calculatedFrom(""CRC16"") u16 SubSum,
-}
-root packet Frame {
-    u16 MsgType,
-    u16 BodyLen @lengthOf(Body),
-    Sub Body,
-    string note,
-    @calculatedFrom(""CRC16"") u16 Checksum,
-    u8 tail,
-}
-")).
-Eval vm_compute in ("<<<M1626>>>" ++ check (runes_of_ascii "packet
-//	t
-// trailing space 
-_x {
-// packet A { u8 x, }
-// c
-char[
-3
-    ] u8x @lengthOf(
-u8x ) , @calculatedFrom(""" ++ [128512]%N ++ runes_of_ascii """ // @lengthOf(
-)
-i16	Foo
-@lengthOf(	string_
-    )`doc`	, repeat	i64 metadata , @lengthOf( string_")).
-Eval vm_compute in ("<<<M1822>>>" ++ check (runes_of_ascii "options { trueish = ""`tick`"" ; string_= """ ++ [233]%N ++ runes_of_ascii "t" ++ [233]%N ++ runes_of_ascii """
+Eval vm_compute in ("<<<M1817>>>" ++ check (runes_of_ascii "options { trueish = ""`tick`"" ; string_= """ ++ [233]%N ++ runes_of_ascii "t" ++ [233]%N ++ runes_of_ascii """
     // c
     } root
     packet body { stringy @calculatedFrom(
@@ -2044,10 +2010,10 @@ line2` , }
 packet Logon {
     @leftPad(
     ' ' ) //	t
-u16 string_ `u8 x,` `u8 x,` ,
+u16 string_ string_ `u8 x,` ,
 }
 ")).
-Eval vm_compute in ("<<<M1812>>>" ++ check (runes_of_ascii "options { trueish = ""`tick`"" ; string_= """ ++ [233]%N ++ runes_of_ascii "t" ++ [233]%N ++ runes_of_ascii """
+Eval vm_compute in ("<<<M1802>>>" ++ check (runes_of_ascii "options { trueish = ""`tick`"" ; string_= """ ++ [233]%N ++ runes_of_ascii "t" ++ [233]%N ++ runes_of_ascii """
     // c
     } root
     packet body { stringy @calculatedFrom(
@@ -2055,8 +2021,8 @@ Eval vm_compute in ("<<<M1812>>>" ++ check (runes_of_ascii "options { trueish = 
 line2` , }
 packet Logon {
     @leftPad(
-    ' ' ) //	t
-u16 u16 string_ `u8 x,` ,
+    ' ' ' ' ) //	t
+u16 string_ `u8 x,` ,
 }
 ")).
 Eval vm_compute in ("<<<M1851>>>" ++ check (runes_of_ascii "options { trueish = ""`tick`"" ; string_= """ ++ [233]%N ++ runes_of_ascii "t" ++ [233]%N ++ runes_of_ascii """
@@ -2083,7 +2049,7 @@ packet Logon {
 u16 string_ `u8 x,` ,
 }
 ")).
-Eval vm_compute in ("<<<M1706>>>" ++ check (runes_of_ascii "options { trueish = ""`tick`"" ; string_ """ ++ [233]%N ++ runes_of_ascii "t" ++ [233]%N ++ runes_of_ascii """
+Eval vm_compute in ("<<<M1696>>>" ++ check (runes_of_ascii "options { trueish = ""`tick`""  string_= """ ++ [233]%N ++ runes_of_ascii "t" ++ [233]%N ++ runes_of_ascii """
     // c
     } root
     packet body { stringy @calculatedFrom(
@@ -2107,14 +2073,19 @@ packet Logon {
 u16 string_ `u8 x,` ,
 }
 ")).
-Eval vm_compute in ("<<<M52>>>" ++ check (runes_of_ascii "  root packet _x// " ++ [128512]%N ++ runes_of_ascii " emoji
-{@lengthOf(// c
-Packet ) float32 stringy  @calculatedFrom(
-""x y"" ) `say ""hi""`, match Pad as
-x_y_z{ ""a\\"" : float , 65535 : stringy 007: /// triple
-uint8x ,
-    } , }
-")).
+Eval vm_compute in ("<<<M1167>>>" ++ check (runes_of_ascii "  options { } packet Logon{} packet Foo
+{
+    uint8x _x // a // b
+`" ++ [28040; 24687; 31867; 22411]%N ++ runes_of_ascii "` ,
+    } packet
+u8x	{
+rootA , }
+    options
+    // packet A { u8 x, }
+    {
+msg_type = false stringy=
+    ' '
+    } 	 ")).
 Eval vm_compute in ("<<<M727>>>" ++ check (runes_of_ascii "packet
 tag// a // b
 { repeat string
@@ -2137,110 +2108,169 @@ line2`,
     stringy
     // " ++ [128512]%N ++ runes_of_ascii " emoji
     `tab	here` ,}")).
-Eval vm_compute in ("<<<M430>>>" ++ check (runes_of_ascii "root packet i8i8 { @tag(
-3) @tag( // " ++ [128512]%N ++ runes_of_ascii " emoji
-42 )repeat zchar[ 0123456789 ]
-    options1 // a // b
-, string	charz
-`say ""hi""` ,
+Eval vm_compute in ("<<<M1591>>>" ++ check (runes_of_ascii "packet
+//	t
+// trailing space 
+_x {
+// packet A { u8 x, }
+// c
+char[
+3
+    ] u8x @lengthOf(
+u8x ) , @calculatedFrom(""" ++ [128512]%N ++ runes_of_ascii """ // @lengthOf(
+)
+i16	Foo
+@lengthOf(	string_
+    )`doc`")).
+Eval vm_compute in ("<<<M384>>>" ++ check (runes_of_ascii "
+options{ }MetaData len {	crc Foo,
+    char[]
+x_y_z `// not a comment` ,  } options  {a1= """ ++ [128512]%N ++ runes_of_ascii """ ; _x  =
+0123456789 _x =
+true u8x
+    = ""packet"" trueish=string// " ++ [27880; 37322]%N ++ runes_of_ascii "
+;} //")).
+Eval vm_compute in ("<<<M1805>>>" ++ check (runes_of_ascii "options { trueish = ""`tick`"" ; string_= """ ++ [233]%N ++ runes_of_ascii "t" ++ [233]%N ++ runes_of_ascii """
+    // c
+    } root
+    packet body { stringy @calculatedFrom(
+""a	b"" ) `line1
+line2` , }
+packet Logon {
+    @leftPad(")).
+Eval vm_compute in ("<<<M2310>>>" ++ check (runes_of_ascii "// c
+packet x { @lengthOf( metadata ) repeat lengthOf
+,a1{
+trueish	,// c
+repeat//	t
+MetaDataX , } , zchar[
+    42	] rootA rootA // `tick` ""quote"" 'q'
+,
     }
-MetaData int{
-    uint16 uint8x,
-    }")).
-Eval vm_compute in ("<<<M4241>>>" ++ check (runes_of_ascii "
-MetaData
-uint8x {
-}
-	packet
-	i8i8{ // a // b
-
-  repeat
-uint64 roots
-	, string
-
-    falsey
-	,// trailing space 
-
-	}
-
-    options{
-
-repeatCount
-
-    = 007 ;	}
-
 ")).
-Eval vm_compute in ("<<<M1048>>>" ++ check (runes_of_ascii "packet falsey { }
-    packet
-    stringy
-    { repeatCount //	t
-@calculatedFrom(  ""a	b"" //x
-) ,
-@lengthOf( string_ )
-    repeat i64_ metadata
-`
-` /// triple
+Eval vm_compute in ("<<<M2370>>>" ++ check (runes_of_ascii "// c
+packet x { @lengthOf( metadata ) repeat lengthOf
+,a1{
+trueish	,// c
+repeat//	t
+MetaDataX , } , zchar[
+    42	] rootA // `tick` ""quote"" 'q'
+,
+    true
+")).
+Eval vm_compute in ("<<<M2312>>>" ++ check (runes_of_ascii "// c
+packet x { @lengthOf( metadata ) repeat ,
+lengthOf a1{
+trueish	,// c
+repeat//	t
+MetaDataX , } , zchar[
+    42	] rootA // `tick` ""quote"" 'q'
+,
+    }
+")).
+Eval vm_compute in ("<<<M2319>>>" ++ check (runes_of_ascii "// c
+packet x { @lengthOf( metadata ) repeat lengthOf
+,a1{
+trueish	,// c
+MetaDataX//	t
+repeat , } , zchar[
+    42	] rootA // `tick` ""quote"" 'q'
+,
+    }
+")).
+Eval vm_compute in ("<<<M2341>>>" ++ check (runes_of_ascii "// c
+packet x { @lengthOf( metadata ) repeat lengthOf
+,a1{
+trueish	,// c
+repeat//	t
+MetaDataX , } , zchar[
+    42	] rootA // `tick` ""quote"" 'q'
+
+    }
+")).
+Eval vm_compute in ("<<<M2156>>>" ++ check (runes_of_ascii "options{
+_x
+= true
+} options
+{ o	= /// triple
+false
+    ; chars
+= ""\n"" } packet root	Pad
+/// triple
+// packet A { u8 x, }
+{	chars
+    // a // b
+    ,}")).
+Eval vm_compute in ("<<<M2207>>>" ++ check (runes_of_ascii "options{
+_x
+= true
+} options
+{ o	= /// triple
+false
+    ; chars
+= ""\n"" } root packet	x" ++ [178]%N ++ runes_of_ascii "
+/// triple
+// packet A { u8 x, }
+{	chars
+    // a // b
+    ,}")).
+Eval vm_compute in ("<<<M2154>>>" ++ check (runes_of_ascii "options{
+_x
+= true
+} options
+{ o	= /// triple
+false
+    ; chars
+= ""\n"" }  packet	Pad
+/// triple
+// packet A { u8 x, }
+{	chars
+    // a // b
+    ,}")).
+Eval vm_compute in ("<<<M751>>>" ++ check (runes_of_ascii "packet rootA
+{ @tag( 3
+    )char[ 255]// " ++ [27880; 37322]%N ++ runes_of_ascii "
+x `two words`, @lengthOf(
+    zchar)i32 roots ,
+    u16 Foo `say ""hi""` ,
+    } // `tick` ""quote"" 'q'")).
+Eval vm_compute in ("<<<M3971>>>" ++ check (runes_of_ascii "
+
+  packet A
+
+    {
+
+Inner { match	k	as  n
+{ [ 1 
+,
+22 , 007
+	,
+    4,
+    5
+,
+
+    66
+    ,
+
+    7 ,
+	8, 9 
+,10 ] : B 
 , }
-")).
-Eval vm_compute in ("<<<M2336>>>" ++ check (runes_of_ascii "// c
-packet x { @lengthOf( metadata ) repeat lengthOf
-,a1{
-trueish	,// c
-repeat//	t
-MetaDataX , } , zchar[
-    options	] rootA // `tick` ""quote"" 'q'
+,}
 ,
-    }
+
+}
 ")).
-Eval vm_compute in ("<<<M3362>>>" ++ check (runes_of_ascii "// top
-packet // c0a
-  // c0b
-x
-    // c1
-{ @rightPad
-    // c3
-( // c4a
-  // c4b
-) repeat roots
-    // c7
-Logon // c8
-`doc`
-    // c9
-, } // c11a
-  // c11b
-")).
-Eval vm_compute in ("<<<M2343>>>" ++ check (runes_of_ascii "// c
-packet x { @lengthOf( metadata ) repeat lengthOf
-,a1{
-trueish	,// c
-repeat//	t
-MetaDataX , } , zchar[
-    42	] rootA // `tick` ""quote"" 'q'
-,
-    '}
-")).
-Eval vm_compute in ("<<<M2379>>>" ++ check (runes_of_ascii "// c
-packet x { @lengthOf( ) metadata repeat lengthOf
-,a1{
-trueish	,// c
-repeat//	t
-MetaDataX , } , zchar[
-    42	] rootA // `tick` ""quote"" 'q'
-,
-    }
-")).
-Eval vm_compute in ("<<<M2396>>>" ++ check (runes_of_ascii "// c
-packet  { @lengthOf( metadata ) repeat lengthOf
-,a1{
-trueish	,// c
-repeat//	t
-MetaDataX , } , zchar[
-    42	] rootA // `tick` ""quote"" 'q'
-,
-    }
-")).
-Eval vm_compute in ("<<<M2206>>>" ++ check (runes_of_ascii "options{
-x" ++ [178]%N ++ runes_of_ascii "
+Eval vm_compute in ("<<<M4467>>>" ++ check (runes_of_ascii "root packet _x {
+    @rightPad(' ')
+    f32 zchar @calculatedFrom(""abc"") `
+    `,
+    char[255] roots `crlf
+    line`,
+    repeat u8x,
+}")).
+Eval vm_compute in ("<<<M2183>>>" ++ check (runes_of_ascii "options{
+_x
 = true
 } options
 { o	= /// triple
@@ -2249,412 +2279,314 @@ false
 = ""\n"" } root packet	Pad
 /// triple
 // packet A { u8 x, }
-{	chars
-    // a // b
-    ,}")).
-Eval vm_compute in ("<<<M4150>>>" ++ check (runes_of_ascii "
+{	chars")).
+Eval vm_compute in ("<<<M4566>>>" ++ check (runes_of_ascii "root 
+packet repeatCount 
 
-  root packet  matchKey{
+// c
+	// " ++ [128512]%N ++ runes_of_ascii " emoji
 
-zchar[ 3
-
-]
-    pack @calculatedFrom( ""a	b"" )
-
-    `doc`
-    ,	}
-    options { 
-} MetaData  // c
-	A	{ int8	msg_type ,}
-
-")).
-Eval vm_compute in ("<<<M843>>>" ++ check (runes_of_ascii "options
 {
-crc
-//
-// a // b
-=
-    // packet A { u8 x, }
-    ""abc""
-    ; stringy =
-    '0' ;
-Logon
-= zchar[
-10  ]
-    float// a // b
-=
-    false	}
-")).
-Eval vm_compute in ("<<<M856>>>" ++ check (runes_of_ascii "root packet Header
-{ match leftPad as Foo
-    {// c
-7 : o
-// @lengthOf(
-//x
-,
-0 : u8x 65535: leftPad  ,
-    00:
-asx  , ""it's"" : //
-o , },
-    }
-")).
-Eval vm_compute in ("<<<M710>>>" ++ check (runes_of_ascii "root packet options1 {
-    }	options { u
-    =  4294967296
-    As=
-""abc""  f32a = ' ' ; len // packet A { u8 x, }
-=char[] ; uint8x
-= true}
-")).
-Eval vm_compute in ("<<<M4174>>>" ++ check (runes_of_ascii "packet A {
-    B b `a
-            b
-          c`,
-    B `a
-            b
-          c`,
-    repeat B bs `a
-            b
-          c`,
-}")).
-Eval vm_compute in ("<<<M3864>>>" ++ check (runes_of_ascii "packet A {
-    match k as n {
-        [
-            22, 4, 66, ""a"", ""c c"",
-            ""e""
-        ] : B,
-        2 : C,
-    },
-}")).
-Eval vm_compute in ("<<<M523>>>" ++ check (runes_of_ascii "//
-MetaData i8i8 { } root packet
-    roots {
-repeat u16 BodyLength `
-` ,
-    } options {	string_ = """ ++ [233]%N ++ runes_of_ascii "t" ++ [233]%N ++ runes_of_ascii """ ; }
-packet i64_
-{}
-")).
-Eval vm_compute in ("<<<M2321>>>" ++ check (runes_of_ascii "// c
-packet x { @lengthOf( metadata ) repeat lengthOf
-,a1{
-trueish	,// c
-repeat//	t
-MetaDataX , } , zchar[
-    42	] rootA")).
-Eval vm_compute in ("<<<M3328>>>" ++ check (runes_of_ascii "root packet matchKey { zchar[ 3 ] pack @calculatedFrom( // c
-""a	b"" ) `doc` , } options { } MetaData A { int8 msg_type , }")).
-Eval vm_compute in ("<<<M4590>>>" ++ check (runes_of_ascii "packet	A
-	{
-    match 
-k  as
-	n
-	{ 
-[ ""a"" 
-, 22 ,""c c"" ,
-4
-,""e""
 
-    ,66,
-""g""	,8 
-,
-""i"" ]
-
-    : B	,	2 : C
-	}
-
-,
-	}")).
-Eval vm_compute in ("<<<M3054>>>" ++ check (runes_of_ascii "packet A {
-    match k as n {
-        ""x\
-y"" : B,
-        [""x\
-y"", 1] : C,
-        [1,2,3,4,5,""x\
-y""] : D,
-    },
-}")).
-Eval vm_compute in ("<<<M1210>>>" ++ check (runes_of_ascii "
-MetaData chars
-    { // " ++ [128512]%N ++ runes_of_ascii " emoji
-trueish
-rootA `say ""hi""` , uint8 Packet , zchar[ 0123456789
-    //
-    ] Z9_
-,	}
-
+    msg_type 	 // `tick` ""quote"" 'q'
+		{  float64 
+lengthOf `" ++ [233]%N ++ runes_of_ascii "`	, } 
+, }
 ")).
-Eval vm_compute in ("<<<M1362>>>" ++ check (runes_of_ascii "options {
-    x =
-    0  ;
-/// triple
-/// triple
-Header = ""1"" ; zchar
-    ='0' Pad= float64
-;
-} MetaData u128{	}
-")).
-Eval vm_compute in ("<<<M996>>>" ++ check (runes_of_ascii "
-MetaData // `tick` ""quote"" 'q'
-Foo { char[
-    4294967296
-    ] // packet A { u8 x, }
-string_ , T float , }
-")).
-Eval vm_compute in ("<<<M24>>>" ++ check (runes_of_ascii "root packet
-    metadata// " ++ [128512]%N ++ runes_of_ascii " emoji
-{ } packet // c
-u
-{@leftPad (
-) repeat char[  4294967296 ] A
-`a\`  ,
-}
-")).
-Eval vm_compute in ("<<<M3669>>>" ++ check (runes_of_ascii "  packet
-
-metadata { Logon
-
-{A
-    `" ++ [28040; 24687; 31867; 22411]%N ++ runes_of_ascii "`  // c
-	,  tag	o ,	}
-    ,
-zchar 
-len
-
-`// not a comment`
-,	}
-")).
-Eval vm_compute in ("<<<M4256>>>" ++ check (runes_of_ascii "options {
-    _x = true
-}
-
-options {
-    o = false;
-    chars = ""\n""
-}
-
-root packet Pad {
-    chars,
-}")).
-Eval vm_compute in ("<<<M642>>>" ++ check (runes_of_ascii "packet
-//	t
-//x
-As
-{ matchKey@lengthOf(string_)
-    , matchKey `say ""hi""`// packet A { u8 x, }
-,}")).
-Eval vm_compute in ("<<<M3551>>>" ++ check (runes_of_ascii "packet B {
+Eval vm_compute in ("<<<M4111>>>" ++ check (runes_of_ascii "// top
+packet orderItem {
     u8 a,
-    string s,
-}
-root packet P {
-    u16 L @lengthOf(B),
-    B,
-    u8 t,
-}
-")).
-Eval vm_compute in ("<<<M721>>>" ++ check (runes_of_ascii "MetaData A  {zchar[42 ]string_ ,}MetaData u{
-    // a // b
-    } options {
-o
-= ""CRC32""
-;  }
+}// c6
 
+root packet newOrder {
+    // c10
+    orderItem,// c12a
+    // c12b
+    u8 x,
+}")).
+Eval vm_compute in ("<<<M3322>>>" ++ check (runes_of_ascii "root packet matchKey { zchar[ 3 // c
+] pack @calculatedFrom( ""a	b"" ) `doc` , } options { } MetaData A { int8 msg_type , }")).
+Eval vm_compute in ("<<<M3354>>>" ++ check (runes_of_ascii "root packet matchKey { zchar[ 3 ] pack @calculatedFrom( ""a	b"" ) `doc` , } options { } MetaData A { int8 msg_type // c
+, }")).
+Eval vm_compute in ("<<<M1473>>>" ++ check (runes_of_ascii "
+packet
+    falsey { Header@calculatedFrom(""packet""  ) , char[
+    0123456789 ] packetx
+    \, } // `tick` ""quote"" 'q'")).
+Eval vm_compute in ("<<<M1444>>>" ++ check (runes_of_ascii "
+packet
+    falsey { Header@calculatedFrom(""packet""  ) , char[
+    ] 0123456789 packetx
+    , } // `tick` ""quote"" 'q'")).
+Eval vm_compute in ("<<<M2189>>>" ++ check (runes_of_ascii "options{
+_x
+= true
+} options
+{ o	= /// triple
+false
+    ; chars
+= ""\n"" } root packet	Pad
+/// triple
+// packet A {")).
+Eval vm_compute in ("<<<M2978>>>" ++ check (runes_of_ascii "packet A {
+  match k as n {
+    [""a"", ""bb"", ""c c"", ""d"", ""e"", ""f"", ""g"", ""h"", ""i"", ""j"", ""k""] : B
+    2 : C
+  },
+}")).
+Eval vm_compute in ("<<<M3003>>>" ++ check (runes_of_ascii "packet A {
+    u16 len @lengthOf(body) `a
+b`,
+    u32 crc @calculatedFrom(""CRC32"") `a
+b`,
+    string body,
+}")).
+Eval vm_compute in ("<<<M1248>>>" ++ check (runes_of_ascii "root packet Packet { @rightPad ( ' '  )
+int8
+//
+// `tick` ""quote"" 'q'
+rootA // a // b
+, char[]i8i8 , } 	 ")).
+Eval vm_compute in ("<<<M2951>>>" ++ check (runes_of_ascii "packet A {
+  match k as n {
+    [""a"", ""bb"", ""c c"", ""d"", ""e"", ""f"", ""g"", ""h"", ""i""] : B,
+    2 : C
+  },
+}")).
+Eval vm_compute in ("<<<M3603>>>" ++ check (runes_of_ascii "  packet
+    FooBar
+{
+u8
+
+a
+, }	packet
+
+foo_bar{
+u16  b	,}
+root
+packet R
+
+{
+	FooBar 
+, foo_bar,} ")).
+Eval vm_compute in ("<<<M453>>>" ++ check (runes_of_ascii "
+root packet string_ //	t
+{ @lengthOf(
+o ) @leftPad(	)
+repeat char[
+3 ] rootA
+, } // @lengthOf(")).
+Eval vm_compute in ("<<<M4129>>>" ++ check (runes_of_ascii "packet
+
+A
+
+    { B	b	`a
+    b
+  c` ,B
+    `a
+    b
+  c`
+
+,
+	repeat B bs`a
+    b
+  c` ,
+    } ")).
+Eval vm_compute in ("<<<M4043>>>" ++ check (runes_of_ascii "MetaData body {
+    i64 pack `it's`,
+}
+
+packet stringy {
+    // c
+    int16 calculatedFrom,
+}")).
+Eval vm_compute in ("<<<M582>>>" ++ check (runes_of_ascii "MetaData f32a { u32 roots , T matchKey  `tab	here` ,
+/// triple
+// packet A { u8 x, }
+} 	 ")).
+Eval vm_compute in ("<<<M3270>>>" ++ check (runes_of_ascii "MetaData
+// c
+float { float64 charz `
+` , } root packet chars { @rightPad ( '0' ) Foo , }")).
+Eval vm_compute in ("<<<M3302>>>" ++ check (runes_of_ascii "MetaData float { float64 charz `
+` , } root packet chars { @rightPad ( '0' ) Foo
+// c
+, }")).
+Eval vm_compute in ("<<<M3513>>>" ++ check (runes_of_ascii "packet chars { } packet MetaDataX { @tag( 42 ) i16 string_ , repeat x // c
+`say ""hi""` , }")).
+Eval vm_compute in ("<<<M794>>>" ++ check (runes_of_ascii "packet MetaDataX
+{ char[]
+len , // a // b
+float64 len
+@calculatedFrom( ""packet"" )
+, }
 ")).
-Eval vm_compute in ("<<<M2926>>>" ++ check (runes_of_ascii "packet A {
-  match k as n {
-    [""a"", ""bb"", ""c c"", ""d"", ""e"", ""f"", ""g""] : B
-    2 : C
-  },
-}")).
-Eval vm_compute in ("<<<M2940>>>" ++ check (runes_of_ascii "packet A {
-  match k as n {
-    [1, ""bb"", 007, ""d"", 5, ""f"", 7, ""h""] : B,
-    2 : C
-  },
-}")).
-Eval vm_compute in ("<<<M3296>>>" ++ check (runes_of_ascii "MetaData float { float64 charz `
-` , } root packet chars { @rightPad (
-// c
-'0' ) Foo , }")).
-Eval vm_compute in ("<<<M3507>>>" ++ check (runes_of_ascii "packet chars { } packet MetaDataX { @tag( 42 ) i16 string_ // c
-, repeat x `say ""hi""` , }")).
-Eval vm_compute in ("<<<M2934>>>" ++ check (runes_of_ascii "packet A {
-  match k as n {
-    [""a"", ""bb"", 007, ""d"", ""e"", 66, ""g""] : B
-    2 : C
-  },
-}")).
-Eval vm_compute in ("<<<M3874>>>" ++ check (runes_of_ascii "options {
-    repeatCount = ""a	b"";
-    As = ' ';
-    len = true;
-    string_ = int16;
-}")).
-Eval vm_compute in ("<<<M3214>>>" ++ check (runes_of_ascii "packet
-// c
-metadata { Logon { A `" ++ [28040; 24687; 31867; 22411]%N ++ runes_of_ascii "` , tag o , } , zchar len `// not a comment` , }")).
-Eval vm_compute in ("<<<M3246>>>" ++ check (runes_of_ascii "packet metadata { Logon { A `" ++ [28040; 24687; 31867; 22411]%N ++ runes_of_ascii "` , tag o , } , zchar len `// not a comment` ,
-// c
-}")).
-Eval vm_compute in ("<<<M3434>>>" ++ check (runes_of_ascii "packet o {
-// c
-repeat Logon uint8x , } options { asx = zchar[ 3 ] stringy = '\x00' }")).
-Eval vm_compute in ("<<<M3914>>>" ++ check (runes_of_ascii "packet A {
-    match k as n {
-        [1, 22, 007, 4, 5] : B,
-        2 : C,
-    },
-}")).
-Eval vm_compute in ("<<<M3422>>>" ++ check (runes_of_ascii "MetaData body { i64 pack `it's` , } packet stringy { int16 calculatedFrom , } // c
+Eval vm_compute in ("<<<M1187>>>" ++ check (runes_of_ascii "options{
+a1 = false
+x
+= ""CRC32""
+// `tick` ""quote"" 'q'
+// @lengthOf(
+A  =  42
+    } 	 ")).
+Eval vm_compute in ("<<<M3221>>>" ++ check (runes_of_ascii "packet metadata { Logon { // c
+A `" ++ [28040; 24687; 31867; 22411]%N ++ runes_of_ascii "` , tag o , } , zchar len `// not a comment` , }")).
+Eval vm_compute in ("<<<M1056>>>" ++ check (runes_of_ascii "options {o= 007 Z9_ =
+"""" Logon // a // b
+= 4294967296 //	t
+; }
+packet stringy {}
 ")).
-Eval vm_compute in ("<<<M3411>>>" ++ check (runes_of_ascii "MetaData body { i64 pack `it's` , } packet
+Eval vm_compute in ("<<<M3444>>>" ++ check (runes_of_ascii "packet o { repeat Logon uint8x , }
 // c
-stringy { int16 calculatedFrom , }")).
+options { asx = zchar[ 3 ] stringy = '\x00' }")).
+Eval vm_compute in ("<<<M3586>>>" ++ check (runes_of_ascii "packet order_item {
+    u8 a,
+}
+root packet new_order {
+    order_item,
+    u8 x,
+}
+")).
+Eval vm_compute in ("<<<M2266>>>" ++ check (runes_of_ascii "options
+{ } options { BodyLength= u16 Header= f64 ;  =
+    true
+    ; } // a // b")).
+Eval vm_compute in ("<<<M3419>>>" ++ check (runes_of_ascii "MetaData body { i64 pack `it's` , } packet stringy { int16 calculatedFrom
+// c
+, }")).
 Eval vm_compute in ("<<<M2246>>>" ++ check (runes_of_ascii "options
 { } options { BodyLength= u16 = f64 ; u128 =
     true
     ; } // a // b")).
-Eval vm_compute in ("<<<M3250>>>" ++ check (runes_of_ascii "// top
-root
-    // c0
-packet
-    // c1
-pack
-    // c2
-{
-    // c3
-}
-    // c4
-")).
-Eval vm_compute in ("<<<M2895>>>" ++ check (runes_of_ascii "packet A {
+Eval vm_compute in ("<<<M2886>>>" ++ check (runes_of_ascii "packet A {
   match k as n {
-    [""a"", ""bb"", 007, ""d""] : B
+    [""a"", ""bb"", ""c c"", ""d""] : B,
     2 : C
   },
 }")).
-Eval vm_compute in ("<<<M1119>>>" ++ check (runes_of_ascii "MetaData
-    // a // b
-    options1 { Pad
-options1	,// " ++ [27880; 37322]%N ++ runes_of_ascii "
-}
-// " ++ [128512]%N ++ runes_of_ascii " emoji
+Eval vm_compute in ("<<<M2697>>>" ++ check (runes_of_ascii "( packet char[] { int32 ""`tick`"" i8 MetaData int64 zchar[ string char root")).
+Eval vm_compute in ("<<<M4007>>>" ++ check (runes_of_ascii "//
+  MetaData
+o{
+i16	zchar// a // b
+,
+char[ 	 //	t
+	00] string_
+, 
+} ")).
+Eval vm_compute in ("<<<M2878>>>" ++ check (runes_of_ascii "packet A {
+  match k as n {
+    [""a"", 22, ""c c""] : B
+    2 : C
+  },
+}")).
+Eval vm_compute in ("<<<M2663>>>" ++ check (runes_of_ascii "options { a = char[3]; b = zchar[0] c = char[] d = string e = u8 }")).
+Eval vm_compute in ("<<<M474>>>" ++ check (runes_of_ascii "MetaData
+pack {// " ++ [27880; 37322]%N ++ runes_of_ascii "
+string //	t
+float,
+char[]	options1
+, }
 ")).
-Eval vm_compute in ("<<<M692>>>" ++ check (runes_of_ascii "options {
-T
-= false // a // b
-;
-    tag =
-    char[ 0 ]
-    ;
+Eval vm_compute in ("<<<M4563>>>" ++ check (runes_of_ascii "packet
+
+    leftPad {
+	u64 Foo , 
+	// c
+	// a // b
     }
+
 ")).
-Eval vm_compute in ("<<<M3182>>>" ++ check (runes_of_ascii "packet A {
-    match k as n {
-        1 : B,
-        // c
-    },
-}")).
-Eval vm_compute in ("<<<M922>>>" ++ check (runes_of_ascii "
-packet _x  {repeat int8
-    trueish
-,// packet A { u8 x, }
+Eval vm_compute in ("<<<M3388>>>" ++ check (runes_of_ascii "packet x { @rightPad ( ) repeat roots Logon `doc` , }
+// c
+")).
+Eval vm_compute in ("<<<M3378>>>" ++ check (runes_of_ascii "packet x { @rightPad ( ) repeat
+// c
+roots Logon `doc` , }")).
+Eval vm_compute in ("<<<M4285>>>" ++ check (runes_of_ascii "options {
+    repeatCount = int64
+    u8x = ' ';
 }
-
+// " ++ [27880; 37322]%N)).
+Eval vm_compute in ("<<<M3691>>>" ++ check (runes_of_ascii "options  {	Packet=
+    255;
+    f32a = '0'T =
+	'0'}
 ")).
-Eval vm_compute in ("<<<M1904>>>" ++ check (runes_of_ascii "MetaData
-    u { }  options {
-// c
-// @lengthOf(
-float = int8")).
-Eval vm_compute in ("<<<M1295>>>" ++ check (runes_of_ascii "options { matchKey
-= 0 Header =
-// " ++ [128512]%N ++ runes_of_ascii " emoji
-// c
-""CRC32"" }
-")).
-Eval vm_compute in ("<<<M3386>>>" ++ check (runes_of_ascii "packet x { @rightPad ( ) repeat roots Logon `doc` ,
-// c
-}")).
-Eval vm_compute in ("<<<M4512>>>" ++ check (runes_of_ascii "MetaData M {
-    u8 x `a
-    b`,
-    T t `a
-    b`,
-}")).
-Eval vm_compute in ("<<<M4101>>>" ++ check (runes_of_ascii "MetaData  uint8x 	 // trailing space 
-    {
-
-    }")).
 Eval vm_compute in ("<<<M1096>>>" ++ check (runes_of_ascii "options { body= false ; }
 // `tick` ""quote"" 'q'
 ")).
-Eval vm_compute in ("<<<M3823>>>" ++ check (runes_of_ascii "packet	u128
-{repeat string As`say ""hi""`
-	,  }
+Eval vm_compute in ("<<<M3467>>>" ++ check (runes_of_ascii "// top
+MetaData // c0
+o // c1
+{ // c2
+} // c3
 ")).
-Eval vm_compute in ("<<<M3052>>>" ++ check (runes_of_ascii "options {
-    a = ""x\
-y"";
-    b = ""x\
-y""
-}")).
-Eval vm_compute in ("<<<M4136>>>" ++ check (runes_of_ascii "options {a =
-	1 // c
-		b
-= 2
-	;	// d
-	}
+Eval vm_compute in ("<<<M3469>>>" ++ check (runes_of_ascii "// top
+MetaData // c0
+o // c1
+{ }
+    // c3
 ")).
-Eval vm_compute in ("<<<M3195>>>" ++ check (runes_of_ascii "root packet u128 { // c
-chars `it's` , }")).
-Eval vm_compute in ("<<<M2655>>>" ++ check (runes_of_ascii "MetaData M { match k as n { 1 : B }, }")).
-Eval vm_compute in ("<<<M3019>>>" ++ check (runes_of_ascii "packet A {
-    u8 x `a
-    b
-  c`,
-}")).
-Eval vm_compute in ("<<<M56>>>" ++ check (runes_of_ascii "// `tick` ""quote"" 'q'
+Eval vm_compute in ("<<<M1838>>>" ++ check (runes_of_ascii "options { trueish = ""`tick`"" ; string_= """)).
+Eval vm_compute in ("<<<M3200>>>" ++ check (runes_of_ascii "root packet u128 { chars `it's`
+// c
+, }")).
+Eval vm_compute in ("<<<M3151>>>" ++ check (runes_of_ascii "packet A {    u8 x, // c    u8 y,}")).
+Eval vm_compute in ("<<<M3764>>>" ++ check (runes_of_ascii "  MetaData 
+M	{ x
+    y
 
-/// triple
-")).
-Eval vm_compute in ("<<<M2731>>>" ++ check (runes_of_ascii "( '\x00' = _x root , ] string ( (")).
-Eval vm_compute in ("<<<M4336>>>" ++ check (runes_of_ascii "packet A {
-    u8 x `d" ++ [6158]%N ++ runes_of_ascii "`,// c" ++ [6158]%N ++ runes_of_ascii "
-}")).
-Eval vm_compute in ("<<<M3077>>>" ++ check (runes_of_ascii "packet A {
- u8 x `d" ++ [133]%N ++ runes_of_ascii "`, // c" ++ [133]%N ++ runes_of_ascii "
-}")).
-Eval vm_compute in ("<<<M1700>>>" ++ check (runes_of_ascii "options { trueish = ""`tick`""")).
-Eval vm_compute in ("<<<M4385>>>" ++ check (runes_of_ascii "root 
-packet pack {// c
+    ,
 
-	}")).
-Eval vm_compute in ("<<<M2766>>>" ++ check (runes_of_ascii "root u8 @tag( ) @rightPad")).
-Eval vm_compute in ("<<<M840>>>" ++ check (runes_of_ascii "packet matchKey
-{
-} //x")).
-Eval vm_compute in ("<<<M2705>>>" ++ check (runes_of_ascii "u64 MetaData char , ]")).
-Eval vm_compute in ("<<<M4389>>>" ++ check (runes_of_ascii "
-packet  body 
-{
-} ")).
-Eval vm_compute in ("<<<M3476>>>" ++ check (runes_of_ascii "MetaData o { // c
-}")).
-Eval vm_compute in ("<<<M3090>>>" ++ check (runes_of_ascii "packet A {
 }
-// c" ++ [8202]%N)).
-Eval vm_compute in ("<<<M2568>>>" ++ check (runes_of_ascii "packet A { u8 , }")).
+")).
+Eval vm_compute in ("<<<M2245>>>" ++ check (runes_of_ascii "options
+{ } options { BodyLength=")).
+Eval vm_compute in ("<<<M3006>>>" ++ check (runes_of_ascii "root packet A {
+    u8 x `a
+b`,
+}")).
+Eval vm_compute in ("<<<M2711>>>" ++ check (runes_of_ascii "jj09.>2DTk%ME=LXhml^SMAda\<;R~)")).
+Eval vm_compute in ("<<<M3107>>>" ++ check (runes_of_ascii "packet A {
+ u8 x `d" ++ [8239]%N ++ runes_of_ascii "`, // c" ++ [8239]%N ++ runes_of_ascii "
+}")).
+Eval vm_compute in ("<<<M2651>>>" ++ check (runes_of_ascii "MetaData M { @tag(1) u8 x, }")).
+Eval vm_compute in ("<<<M4341>>>" ++ check (runes_of_ascii "MetaData o { 
+	// c
+    } ")).
+Eval vm_compute in ("<<<M3164>>>" ++ check (runes_of_ascii "options { a = 1 // a
+ ; }")).
+Eval vm_compute in ("<<<M3930>>>" ++ check (runes_of_ascii "// c" ++ [160]%N ++ runes_of_ascii "
+packet
+A
+	{
+
+}
+
+")).
+Eval vm_compute in ("<<<M700>>>" ++ check (runes_of_ascii "  MetaData crc { } 	 ")).
+Eval vm_compute in ("<<<M2856>>>" ++ check (runes_of_ascii "0" ++ [284; 7; 65533]%N ++ runes_of_ascii "o" ++ [65533]%N ++ runes_of_ascii ">a" ++ [65533; 65533]%N ++ runes_of_ascii "3" ++ [31; 65533]%N ++ runes_of_ascii " " ++ [6; 65533; 65533; 28; 65533; 65533]%N)).
+Eval vm_compute in ("<<<M3126>>>" ++ check (runes_of_ascii "// c 	
+packet A {
+}")).
+Eval vm_compute in ("<<<M3085>>>" ++ check (runes_of_ascii "packet A {
+}
+// c" ++ [8192]%N)).
+Eval vm_compute in ("<<<M1690>>>" ++ check (runes_of_ascii "options { trueish")).
 Eval vm_compute in ("<<<M532>>>" ++ check (runes_of_ascii "MetaData Z9_ { }")).
 Eval vm_compute in ("<<<M2630>>>" ++ check (runes_of_ascii "packet A { } }")).
-Eval vm_compute in ("<<<M4418>>>" ++ check (runes_of_ascii "
-options {}
+Eval vm_compute in ("<<<M4475>>>" ++ check (runes_of_ascii "packet A {
+}")).
+Eval vm_compute in ("<<<M2753>>>" ++ check (runes_of_ascii ", char[ }")).
+Eval vm_compute in ("<<<M2504>>>" ++ check (runes_of_ascii "// a
+b")).
+Eval vm_compute in ("<<<M2432>>>" ++ check (runes_of_ascii "charz")).
+Eval vm_compute in ("<<<M3134>>>" ++ check (runes_of_ascii "// c" ++ [65279]%N)).
+Eval vm_compute in ("<<<M109>>>" ++ check (runes_of_ascii "
+
+
 ")).
-Eval vm_compute in ("<<<M2489>>>" ++ check (runes_of_ascii "@lengthOf")).
-Eval vm_compute in ("<<<M2459>>>" ++ check (runes_of_ascii "strings")).
-Eval vm_compute in ("<<<M3124>>>" ++ check (runes_of_ascii "// c 	")).
-Eval vm_compute in ("<<<M3089>>>" ++ check (runes_of_ascii "// c" ++ [8202]%N)).
-Eval vm_compute in ("<<<M2542>>>" ++ check (runes_of_ascii "{}{}")).
-Eval vm_compute in ("<<<M2534>>>" ++ check (runes_of_ascii "a_b")).
-Eval vm_compute in ("<<<M2548>>>" ++ check (runes_of_ascii "	a")).
+Eval vm_compute in ("<<<M2689>>>" ++ check (runes_of_ascii " " ++ [12]%N ++ runes_of_ascii " ")).
+Eval vm_compute in ("<<<M2477>>>" ++ check (runes_of_ascii "'")).
